@@ -1,6 +1,6 @@
 (* C06 — proofs about the relay registry model. *)
 From V Require Import Lib.Base Model.C06.
-From Coq Require Import ZifyBool.
+From Coq Require Import ZifyBool Lia Sorted FinFun.
 Import C06.
 Open Scope N_scope.
 
@@ -698,24 +698,1475 @@ Proof.
   apply list_eqb_refl, N.eqb_refl.
 Qed.
 
-Lemma monitor_steps_model l : forall ss, reach (st ss) ->
-  monitor_steps (exec_ops ss l) (map snd (exec_ops ss l)) = true.
+
+(* ---------------------------------------------------------------- settle, connection by connection *)
+Definition frame_eq (s s' : state) : Prop :=
+  nconns s' = nconns s /\ reg s' = reg s /\ sent s' = sent s /\ pending s' = pending s /\
+  order s' = order s /\ cap s' = cap s.
+
+Lemma frame_eq_refl s : frame_eq s s.
+Proof. repeat split. Qed.
+Lemma frame_eq_trans s t u : frame_eq s t -> frame_eq t u -> frame_eq s u.
+Proof. unfold frame_eq. intuition congruence. Qed.
+
+Definition pointwise (g : conn -> conn) (l : list N) (s s' : state) : Prop :=
+  frame_eq s s' /\ forall c, conns s' c = if existsb (N.eqb c) l then g (conns s c) else conns s c.
+
+Lemma existsb_notin c l : ~ In c l -> existsb (N.eqb c) l = false.
+Proof.
+  intros H. destruct (existsb (N.eqb c) l) eqn:E; [|reflexivity].
+  apply existsb_exists in E as (x & Hx & Ex). apply N.eqb_eq in Ex. subst. contradiction.
+Qed.
+
+Lemma fold_pointwise (F : state -> N -> state) g :
+  (forall s c, pointwise g [c] s (F s c)) ->
+  forall l, NoDup l -> forall s, pointwise g l s (fold_left F l s).
+Proof.
+  intros HF. induction l as [|a l IH]; intros Hnd s; cbn [fold_left].
+  - split; [apply frame_eq_refl|]. intros c. reflexivity.
+  - inversion Hnd as [|? ? Hn Hnd']. subst.
+    destruct (HF s a) as [Hf Hc]. destruct (IH Hnd' (F s a)) as [Hf' Hc'].
+    split; [eapply frame_eq_trans; eassumption|].
+    intros c. rewrite Hc', Hc. cbn [existsb]. rewrite orb_false_r.
+    destruct (c =? a) eqn:E; cbn [orb]; [|reflexivity].
+    apply N.eqb_eq in E. subst c. now rewrite existsb_notin.
+Qed.
+
+Lemma pointwise_comp g1 g2 l s s1 s2 :
+  pointwise g1 l s s1 -> pointwise g2 l s1 s2 -> pointwise (fun x => g2 (g1 x)) l s s2.
+Proof.
+  intros [f1 c1] [f2 c2]. split; [eapply frame_eq_trans; eassumption|].
+  intros c. rewrite c2, c1. now destruct (existsb _ _).
+Qed.
+
+Definition exit_conn (x : conn) : conn :=
+  if is_running (cstate x) && (cancelled x || closed x) then with_cstate x Exited else x.
+
+Definition drain_conn (x : conn) : conn :=
+  if is_running (cstate x)
+  then mkConn (eid x) (ver x) (cstate x) (cancelled x) (closed x) (inserted x) [] [] (got x ++ pq x ++ mq x)
+  else x.
+
+Definition settle_conn (x : conn) : conn := drain_conn (exit_conn x).
+
+Lemma set_conn_pointwise s c g :
+  pointwise g [c] s (set_conn s c (g (conns s c))).
+Proof.
+  split; [repeat split|]. intros c'. cbn. unfold fupd. rewrite orb_false_r.
+  destruct (c' =? c) eqn:E; [|reflexivity]. apply N.eqb_eq in E. now subst.
+Qed.
+
+Lemma pointwise_id s c g : g (conns s c) = conns s c -> pointwise g [c] s s.
+Proof.
+  intros H. split; [apply frame_eq_refl|]. intros c'. cbn. rewrite orb_false_r.
+  destruct (c' =? c) eqn:E; [|reflexivity]. apply N.eqb_eq in E. subst. now rewrite H.
+Qed.
+
+Lemma exits_pointwise s c :
+  pointwise exit_conn [c] s
+    (let x := conns s c in
+     if is_running (cstate x) && (cancelled x || closed x) then doev s (Exit c) else s).
+Proof.
+  cbv zeta. destruct (is_running (cstate (conns s c)) && _) eqn:E.
+  - unfold doev. change locked_register with true. cbn [step].
+    apply andb_prop in E as [E1 E2]. rewrite E1.
+    replace (with_cstate (conns s c) Exited) with (exit_conn (conns s c)).
+    + apply set_conn_pointwise.
+    + unfold exit_conn. now rewrite E1, E2.
+  - apply pointwise_id. unfold exit_conn. now rewrite E.
+Qed.
+
+Lemma deliver_pq_pointwise fuel : forall s c,
+  fuel = length (pq (conns s c)) ->
+  pointwise (fun x => if is_running (cstate x) then with_pq_got x [] (got x ++ pq x) else x) [c] s
+            (deliver_all fuel s c true).
+Proof.
+  induction fuel as [|f IH]; intros s c Hf; cbn [deliver_all].
+  - apply pointwise_id. destruct (pq (conns s c)) eqn:E; [|discriminate].
+    destruct (is_running _); [|reflexivity]. unfold with_pq_got. rewrite app_nil_r.
+    destruct (conns s c); cbn in *; now subst.
+  - change locked_register with true. cbn [step].
+    destruct (is_running (cstate (conns s c))) eqn:Er.
+    + destruct (pq (conns s c)) as [|f0 r] eqn:Ep; [discriminate|].
+      set (s2 := set_conn s c _).
+      assert (H2 : f = length (pq (conns s2 c))).
+      { unfold s2. cbn. rewrite fupd_same. cbn. cbn in Hf. lia. }
+      destruct (IH s2 c H2) as [Hfr Hc]. split.
+      * eapply frame_eq_trans; [|exact Hfr]. unfold s2. repeat split.
+      * intros c'. rewrite Hc. cbn [existsb]. rewrite orb_false_r. unfold s2. cbn. unfold fupd.
+        destruct (c' =? c) eqn:E; [|reflexivity]. apply N.eqb_eq in E. subst c'.
+        cbn. rewrite Er. unfold with_pq_got. cbn. rewrite Ep. now rewrite <- app_assoc.
+    + apply pointwise_id. now rewrite Er.
+Qed.
+
+Lemma deliver_mq_pointwise fuel : forall s c,
+  fuel = length (mq (conns s c)) ->
+  pointwise (fun x => if is_running (cstate x) then with_mq_got x [] (got x ++ mq x) else x) [c] s
+            (deliver_all fuel s c false).
+Proof.
+  induction fuel as [|f IH]; intros s c Hf; cbn [deliver_all].
+  - apply pointwise_id. destruct (mq (conns s c)) eqn:E; [|discriminate].
+    destruct (is_running _); [|reflexivity]. unfold with_mq_got. rewrite app_nil_r.
+    destruct (conns s c); cbn in *; now subst.
+  - change locked_register with true. cbn [step].
+    destruct (is_running (cstate (conns s c))) eqn:Er.
+    + destruct (mq (conns s c)) as [|f0 r] eqn:Ep; [discriminate|].
+      set (s2 := set_conn s c _).
+      assert (H2 : f = length (mq (conns s2 c))).
+      { unfold s2. cbn. rewrite fupd_same. cbn. cbn in Hf. lia. }
+      destruct (IH s2 c H2) as [Hfr Hc]. split.
+      * eapply frame_eq_trans; [|exact Hfr]. unfold s2. repeat split.
+      * intros c'. rewrite Hc. cbn [existsb]. rewrite orb_false_r. unfold s2. cbn. unfold fupd.
+        destruct (c' =? c) eqn:E; [|reflexivity]. apply N.eqb_eq in E. subst c'.
+        cbn. rewrite Er. unfold with_mq_got. cbn. rewrite Ep. now rewrite <- app_assoc.
+    + apply pointwise_id. now rewrite Er.
+Qed.
+
+Lemma drain_pointwise s c :
+  pointwise drain_conn [c] s
+    (let s1 := deliver_all (length (pq (conns s c))) s c true in
+     deliver_all (length (mq (conns s1 c))) s1 c false).
+Proof.
+  cbv zeta. set (s1 := deliver_all (length (pq (conns s c))) s c true).
+  pose proof (deliver_pq_pointwise _ s c eq_refl) as H1. fold s1 in H1.
+  pose proof (deliver_mq_pointwise _ s1 c eq_refl) as H2.
+  pose proof (pointwise_comp _ _ _ _ _ _ H1 H2) as [Hf Hc]. split; [exact Hf|].
+  intros c'. rewrite Hc. destruct (existsb _ _); [|reflexivity].
+  unfold drain_conn. destruct (is_running (cstate (conns s c'))) eqn:E; cbn; rewrite ?E; [|reflexivity].
+  unfold with_mq_got, with_pq_got. cbn. now rewrite <- app_assoc.
+Qed.
+
+Lemma crange_NoDup s : NoDup (crange s).
+Proof.
+  unfold crange. apply FinFun.Injective_map_NoDup; [|apply seq_NoDup].
+  intros a b H. now apply Nat2N.inj.
+Qed.
+
+Lemma crange_existsb s c : existsb (N.eqb c) (crange s) = (c <? nconns s).
+Proof.
+  destruct (c <? nconns s) eqn:E.
+  - apply existsb_exists. exists c. split; [|apply N.eqb_refl].
+    unfold crange. apply in_map_iff. exists (N.to_nat c). split; [apply N2Nat.id|].
+    apply in_seq. lia.
+  - apply existsb_notin. unfold crange. intros H. apply in_map_iff in H as (x & Hx & Hin).
+    apply in_seq in Hin. lia.
+Qed.
+
+Lemma settle_spec s :
+  frame_eq s (settle s) /\
+  forall c, conns (settle s) c = if c <? nconns s then settle_conn (conns s c) else conns s c.
+Proof.
+  unfold settle.
+  assert (H1 : pointwise exit_conn (crange s) s (settle_exits s)).
+  { unfold settle_exits. apply (fold_pointwise _ _ exits_pointwise), crange_NoDup. }
+  assert (Hcr : crange (settle_exits s) = crange s).
+  { unfold crange. destruct H1 as [(hn & _) _]. now rewrite hn. }
+  assert (H2 : pointwise drain_conn (crange s) (settle_exits s) (settle_deliver (settle_exits s))).
+  { unfold settle_deliver. rewrite Hcr. apply (fold_pointwise _ _ drain_pointwise), crange_NoDup. }
+  destruct (pointwise_comp _ _ _ _ _ _ H1 H2) as [Hf Hc]. split; [exact Hf|].
+  intros c. rewrite Hc, crange_existsb. reflexivity.
+Qed.
+
+(* ---------------------------------------------------------------- between two script operations *)
+Definition queues (x : conn) : list frame := pq x ++ mq x.
+
+Record Sett (s : state) : Prop := {
+  sett_q : forall c, is_running (cstate (conns s c)) = true ->
+           (cancelled (conns s c) || closed (conns s c)) = false /\ pq (conns s c) = [] /\ mq (conns s c) = [];
+  sett_p : pending s = []
+}.
+
+Lemma Inv_not_running_fresh s c : Inv s -> nconns s <= c -> is_running (cstate (conns s c)) = false.
+Proof. intros I H. destruct (inv_fresh s I c H) as [_ ->]. reflexivity. Qed.
+
+Lemma settle_Sett s : Inv s -> pending s = [] -> Sett (settle s).
+Proof.
+  intros I Hp. destruct (settle_spec s) as [(hn & hr & hs & hp & ho & hc) Hc]. constructor.
+  - intros c. rewrite Hc. destruct (c <? nconns s) eqn:E.
+    + unfold settle_conn, drain_conn, exit_conn.
+      destruct (is_running (cstate (conns s c))) eqn:Er; cbn [andb].
+      * destruct (cancelled (conns s c) || closed (conns s c)) eqn:Ecc; cbn; [discriminate|].
+        rewrite Er. cbn. auto.
+      * rewrite Er. congruence.
+    + rewrite Inv_not_running_fresh by (assumption || lia). discriminate.
+  - congruence.
+Qed.
+
+(* the frames a connection receives in an operation that ends with [settle s'] *)
+Definition delivered (s' : state) (c : N) : list frame :=
+  let x := conns s' c in
+  if is_running (cstate x) && negb (cancelled x || closed x) then pq x ++ mq x else [].
+
+Lemma settle_got s' c :
+  c < nconns s' -> got (conns (settle s') c) = got (conns s' c) ++ delivered s' c.
+Proof.
+  intros H. destruct (settle_spec s') as [_ Hc]. rewrite Hc.
+  apply N.ltb_lt in H. rewrite H. unfold settle_conn, drain_conn, exit_conn, delivered.
+  destruct (is_running (cstate (conns s' c))) eqn:Er; cbn [andb negb].
+  - destruct (cancelled (conns s' c) || closed (conns s' c)); cbn; [now rewrite app_nil_r|].
+    rewrite Er. reflexivity.
+  - rewrite Er. now rewrite app_nil_r.
+Qed.
+
+Lemma settle_running s' c : Inv s' ->
+  is_running (cstate (conns (settle s') c)) = true ->
+  c < nconns s' /\ is_running (cstate (conns s' c)) = true /\
+  (cancelled (conns s' c) || closed (conns s' c)) = false.
+Proof.
+  intros I. destruct (settle_spec s') as [_ Hc]. rewrite Hc.
+  destruct (c <? nconns s') eqn:El.
+  - apply N.ltb_lt in El. unfold settle_conn, drain_conn, exit_conn.
+    destruct (is_running (cstate (conns s' c))) eqn:Er; cbn [andb].
+    + destruct (cancelled (conns s' c) || closed (conns s' c)); cbn; [discriminate|auto].
+    + rewrite Er. congruence.
+  - apply N.ltb_ge in El. rewrite Inv_not_running_fresh by assumption. discriminate.
+Qed.
+
+(* ---- how one registry event changes a connection: frames received so far, and where the
+        frames in the queues of a running connection come from ---- *)
+Definition cdelta (P : frame -> Prop) (x y : conn) : Prop :=
+  got y = got x /\ (is_running (cstate y) = true -> is_running (cstate x) = true) /\
+  forall f, In f (queues y) -> In f (queues x) \/ P f.
+
+Lemma cdelta_refl P x : cdelta P x x.
+Proof. repeat split; auto. Qed.
+Lemma cdelta_trans P x y z : cdelta P x y -> cdelta P y z -> cdelta P x z.
+Proof.
+  intros (a & b & c) (a' & b' & c'). split; [congruence|]. split; [auto|].
+  intros f Hf. destruct (c' f Hf) as [H|H]; auto.
+Qed.
+Lemma cdelta_weaken (P Q : frame -> Prop) x y : (forall f, P f -> Q f) -> cdelta P x y -> cdelta Q x y.
+Proof. intros H (a & b & c). repeat split; auto. intros f Hf. destruct (c f Hf); auto. Qed.
+
+Lemma enqueue_m_cdelta s a f c : cdelta (fun f' => f' = f) (conns s c) (conns (enqueue_m s a f) c).
+Proof.
+  unfold enqueue_m. destruct (is_done _); [apply cdelta_refl|].
+  destruct (_ <? _); [|apply cdelta_refl]. cbn. unfold fupd.
+  destruct (c =? a) eqn:E; [|apply cdelta_refl]. apply N.eqb_eq in E. subst c.
+  repeat split; auto. intros f' Hf. unfold queues in *. cbn in Hf.
+  rewrite app_assoc in Hf. apply in_app_or in Hf as [Hf|[Hf|[]]]; auto.
+Qed.
+
+Lemma cancel_cdelta P s b c : cdelta P (conns s c) (conns (cancel s b) c).
+Proof.
+  unfold cancel. cbn. unfold fupd. destruct (c =? b) eqn:E; [|apply cdelta_refl].
+  apply N.eqb_eq in E. subst. repeat split; auto.
+Qed.
+
+Lemma fold_cancel_cdelta P l : forall s c, cdelta P (conns s c) (conns (fold_left cancel l s) c).
+Proof.
+  induction l as [|a l IH]; intros s c; cbn; [apply cdelta_refl|].
+  eapply cdelta_trans; [apply cancel_cdelta|apply IH].
+Qed.
+
+Definition notgone (f : frame) : Prop := forall X, f <> FGone X.
+Lemma status_notgone v k : notgone (status_frame v k).
+Proof. intros X. unfold status_frame. destruct (v =? 1); discriminate. Qed.
+
+Definition evsrc (s : state) (e : event) (f : frame) : Prop :=
+  notgone f \/ exists k p X, e = Notify k /\ nth_error (pending s) (N.to_nat k) = Some (X, p) /\ f = FGone X.
+
+Definition script_ev (e : event) : Prop :=
+  match e with Exit _ | Deliver _ _ => False | _ => True end.
+
+Lemma step_cdelta s e s' c :
+  step true s e = Some s' -> script_ev e ->
+  cdelta (evsrc s e) (conns s c) (conns s' c) \/
+  ((exists id v, e = Spawn id v) /\ got (conns s' c) = [] /\ queues (conns s' c) = []).
+Proof.
+  intros H Hs. destruct e as [id v|c0|c0|c0|c0|k|a d tg|c0 pkt|id o]; try contradiction; cbn [step] in H.
+  - injection H as <-. cbn. unfold fupd. destruct (c =? nconns s); [right; eauto|left; apply cdelta_refl].
+  - destruct (_ && _); [|discriminate]. injection H as <-. left. cbn.
+    set (s1 := match reg s (eid (conns s c0)) with [] => _ | _ :: _ => _ end).
+    assert (H1 : cdelta (evsrc s (Insert c0)) (conns s c) (conns s1 c)).
+    { unfold s1. destruct (reg s (eid (conns s c0))) as [|a rest]; [apply cdelta_refl|]. cbn.
+      eapply cdelta_weaken; [|apply enqueue_m_cdelta]. intros f ->. left. apply status_notgone. }
+    unfold fupd. destruct (c =? c0) eqn:E; [|exact H1]. apply N.eqb_eq in E. subst c0.
+    eapply cdelta_trans; [exact H1|]. repeat split; auto.
+  - destruct (_ <? _); [|discriminate]. injection H as <-. left. cbn. unfold fupd.
+    destruct (c =? c0) eqn:E; [|apply cdelta_refl]. apply N.eqb_eq in E. subst. repeat split; auto.
+  - destruct (_ && _); [|discriminate]. injection H as <-. left. cbn.
+    set (s1 := match reg s (eid (conns s c0)) with [] => s | _ :: _ => _ end).
+    assert (H1 : cdelta (evsrc s (Unregister c0)) (conns s c) (conns s1 c)).
+    { unfold s1. destruct (reg s (eid (conns s c0))) as [|a rest]; [apply cdelta_refl|].
+      destruct (a =? c0); [|apply cdelta_refl]. destruct rest as [|p rest']; [apply cdelta_refl|].
+      eapply cdelta_weaken; [|apply (enqueue_m_cdelta (set_reg s (eid (conns s c0)) (p :: rest')))].
+      intros f ->. left. apply status_notgone. }
+    unfold fupd. destruct (c =? c0) eqn:E; [|exact H1]. apply N.eqb_eq in E. subst c0.
+    eapply cdelta_trans; [exact H1|]. repeat split; auto. cbn. discriminate.
+  - destruct (nth_error (pending s) (N.to_nat k)) as [[gone peer]|] eqn:En; [|discriminate]. left.
+    set (s1 := set_pending s _) in *.
+    destruct (reg s1 peer) as [|a rest]; injection H as <-; [apply cdelta_refl|].
+    eapply cdelta_weaken; [|apply (enqueue_m_cdelta s1)]. intros f ->. right. eauto 6.
+  - destruct (is_running _); [|discriminate]. left.
+    destruct (reg s d) as [|b rest]; [injection H as <-; apply cdelta_refl|].
+    destruct (is_done _); [injection H as <-; apply cancel_cdelta|].
+    destruct (_ <? _); injection H as <-; [|apply cdelta_refl]. cbn. unfold fupd.
+    destruct (c =? b) eqn:E; [|apply cdelta_refl]. apply N.eqb_eq in E. subst c.
+    repeat split; auto. intros f Hf. unfold queues in *. cbn in Hf.
+    apply in_app_or in Hf as [Hf|Hf]; [|left; apply in_or_app; auto].
+    apply in_app_or in Hf as [Hf|[Hf|[]]]; [left; apply in_or_app; auto|].
+    right. left. intros X. rewrite <- Hf. discriminate.
+  - left. destruct o as [c1|].
+    + destruct (existsb _ _); injection H as <-; [apply cancel_cdelta|apply cdelta_refl].
+    + injection H as <-. apply fold_cancel_cdelta.
+Qed.
+
+(* ---- peer-gone notices are in flight only for endpoints without an entry ---- *)
+Definition gclean (s : state) : Prop :=
+  (forall c X, is_running (cstate (conns s c)) = true -> ~ In (FGone X) (queues (conns s c))) /\
+  pending s = [].
+Definition gsafe (s : state) : Prop :=
+  (forall c X, is_running (cstate (conns s c)) = true -> In (FGone X) (queues (conns s c)) -> reg s X = []) /\
+  (forall X p, In (X, p) (pending s) -> reg s X = []).
+
+Lemma Sett_gclean s : Sett s -> gclean s.
+Proof.
+  intros [Hq Hp]. split; [|assumption]. intros c X Hr. destruct (Hq c Hr) as (_ & e1 & e2).
+  unfold queues. rewrite e1, e2. auto.
+Qed.
+
+Lemma gclean_gsafe s : gclean s -> gsafe s.
+Proof. intros [H1 H2]. split; [intros c X Hr Hin; now apply H1 in Hin|rewrite H2; contradiction]. Qed.
+
+Inductive simple_ev : event -> Prop :=
+| se_spawn id v : simple_ev (Spawn id v)
+| se_insert c : simple_ev (Insert c)
+| se_close c : simple_ev (Close c)
+| se_send a d t : simple_ev (Send a d t)
+| se_disc id o : simple_ev (Disconnect id o).
+
+Lemma simple_pending s e s' : simple_ev e -> step true s e = Some s' -> pending s' = pending s.
+Proof.
+  intros He H. destruct He; cbn [step] in H.
+  - now injection H as <-.
+  - destruct (_ && _); [|discriminate]. injection H as <-. cbn.
+    destruct (reg s (eid (conns s c))); cbn; [reflexivity|].
+    now destruct (enqueue_m_fields s n (status_frame (ver (conns s n)) 1)) as (_ & -> & _).
+  - destruct (_ <? _); [|discriminate]. now injection H as <-.
+  - destruct (is_running _); [|discriminate]. destruct (reg s d); [now injection H as <-|].
+    destruct (is_done _); [now injection H as <-|]. destruct (_ <? _); now injection H as <-.
+  - destruct o as [c|].
+    + destruct (existsb _ _); now injection H as <-.
+    + injection H as <-.
+      assert (Hf : forall l t, pending (fold_left cancel l t) = pending t).
+      { induction l as [|z l IHl]; intros t; cbn; [reflexivity|]. now rewrite IHl. }
+      apply Hf.
+Qed.
+
+Lemma simple_script e : simple_ev e -> script_ev e.
+Proof. now destruct 1. Qed.
+
+Lemma simple_gclean s e : simple_ev e -> gclean s -> gclean (doev s e).
+Proof.
+  intros He [H1 H2]. unfold doev. change locked_register with true.
+  destruct (step true s e) as [s'|] eqn:E; [|split; assumption].
+  split; [|now rewrite (simple_pending s e s' He E)].
+  intros c X Hr Hin.
+  destruct (step_cdelta s e s' c E (simple_script e He)) as [(_ & hr & hq)|(_ & _ & hq)].
+  - destruct (hq _ Hin) as [Hold|[Hng|(k & p & Y & -> & _)]].
+    + apply (H1 c X); auto.
+    + now apply (Hng X).
+    + inversion He.
+  - rewrite hq in Hin. contradiction.
+Qed.
+
+Lemma unregister_gsafe s c : Inv s -> gclean s -> gsafe (doev s (Unregister c)).
+Proof.
+  intros I [H1 H2]. unfold doev. change locked_register with true.
+  destruct (step true s (Unregister c)) as [s'|] eqn:E; [|apply gclean_gsafe; split; assumption].
+  split.
+  - intros c' X Hr Hin. exfalso.
+    destruct (step_cdelta s _ s' c' E Logic.I) as [(_ & hr & hq)|(_ & _ & hq)].
+    + destruct (hq _ Hin) as [Hold|[Hng|(k & p & Y & Hk & _)]].
+      * apply (H1 c' X); auto.
+      * now apply (Hng X).
+      * discriminate Hk.
+    + rewrite hq in Hin. contradiction.
+  - intros X p Hin.
+    destruct (peer_gone_only_after_last s _ s' X p I E Hin) as (c' & _ & _ & _ & Hr & _).
+    + rewrite H2. auto.
+    + exact Hr.
+Qed.
+
+Lemma remove_nth_in {A} (l : list A) : forall n y, In y (remove_nth n l) -> In y l.
+Proof. induction l as [|z l IHl]; intros [|n] y; cbn; auto. intros [Hy|Hy]; [now left|right; eauto]. Qed.
+
+Lemma notify_gsafe s k : gsafe s -> gsafe (doev s (Notify k)).
+Proof.
+  intros [H1 H2]. unfold doev. change locked_register with true.
+  destruct (step true s (Notify k)) as [s'|] eqn:E; [|split; assumption].
+  assert (Hreg : forall i, reg s' i = reg s i).
+  { apply (step_same_reg s (Notify k) s' E). }
+  split.
+  - intros c X Hr Hin. rewrite Hreg.
+    destruct (step_cdelta s _ s' c E Logic.I) as [(_ & hr & hq)|(_ & _ & hq)].
+    + destruct (hq _ Hin) as [Hold|[Hng|(k' & p & Y & _ & Hn & HY)]].
+      * apply (H1 c X); auto.
+      * now destruct (Hng X).
+      * injection HY as <-. apply (H2 X p). eapply nth_error_In; eassumption.
+    + rewrite hq in Hin. contradiction.
+  - intros X p Hin. rewrite Hreg. apply (H2 X p).
+    cbn [step] in E. destruct (nth_error (pending s) (N.to_nat k)) as [[gone peer]|]; [|discriminate].
+    set (s1 := set_pending s _) in *.
+    assert (Hp : pending s' = pending s1).
+    { destruct (reg s1 peer); injection E as <-; [reflexivity|].
+      now destruct (enqueue_m_fields s1 n (FGone gone)) as (_ & -> & _). }
+    rewrite Hp in Hin. unfold s1 in Hin. cbn in Hin. eapply remove_nth_in; eassumption.
+Qed.
+
+Lemma notify_all_gsafe fuel : forall s, gsafe s -> gsafe (notify_all fuel s).
+Proof.
+  induction fuel as [|f IH]; intros s H; cbn [notify_all]; [assumption|].
+  destruct (pending s); [assumption|]. now apply IH, notify_gsafe.
+Qed.
+
+Lemma notify_all_pending fuel : forall s, fuel = length (pending s) -> pending (notify_all fuel s) = [].
+Proof.
+  induction fuel as [|f IH]; intros s Hf; cbn [notify_all].
+  - now destruct (pending s).
+  - destruct (pending s) as [|[gone peer] r] eqn:Ep; [assumption|]. apply IH.
+    unfold doev. change locked_register with true. cbn [step]. rewrite Ep. cbn [N.to_nat nth_error remove_nth].
+    set (s1 := set_pending s r).
+    assert (length (pending s1) = f) by (cbn in *; lia).
+    destruct (reg s1 peer); [congruence|].
+    destruct (enqueue_m_fields s1 n (FGone gone)) as (_ & -> & _). congruence.
+Qed.
+
+(* the state an operation reaches before its final [settle] *)
+Inductive mid (s : state) : state -> Prop :=
+| mid_ev e : simple_ev e -> mid s (doev s e)
+| mid_reg id v : mid s (doev (doev s (Spawn id v)) (Insert (nconns s)))
+| mid_unreg c : mid s (unregister_full s c)
+| mid_ins_unreg c x : eid (conns s c) = eid (conns s x) -> mid s (unregister_full (doev s (Insert c)) x).
+
+Lemma mid_reach s s' : reach s -> mid s s' -> reach s'.
+Proof. intros H M. destruct M; auto using doev_reach, unregister_full_reach. Qed.
+
+Lemma doev_simple_pending s e : simple_ev e -> pending (doev s e) = pending s.
+Proof.
+  intros He. unfold doev. change locked_register with true.
+  destruct (step true s e) eqn:E; [eapply simple_pending; eassumption|reflexivity].
+Qed.
+
+Lemma mid_pending s s' : mid s s' -> pending s' = [] \/ pending s' = pending s.
+Proof.
+  intros M. destruct M.
+  - right. now apply doev_simple_pending.
+  - right. rewrite !doev_simple_pending by constructor. reflexivity.
+  - left. unfold unregister_full. now apply notify_all_pending.
+  - left. unfold unregister_full. now apply notify_all_pending.
+Qed.
+
+Lemma mid_gsafe s s' : reach s -> Sett s -> mid s s' -> gsafe s'.
+Proof.
+  intros R S M. pose proof (Sett_gclean s S) as G. destruct M.
+  - now apply gclean_gsafe, simple_gclean.
+  - apply gclean_gsafe, simple_gclean; [constructor|]. apply simple_gclean; [constructor|assumption].
+  - unfold unregister_full. apply notify_all_gsafe, unregister_gsafe; [now apply reach_Inv|assumption].
+  - unfold unregister_full. apply notify_all_gsafe, unregister_gsafe.
+    + now apply reach_Inv, doev_reach.
+    + apply simple_gclean; [constructor|assumption].
+Qed.
+
+Lemma doev_nospawn_cdelta s e c :
+  script_ev e -> (forall id v, e <> Spawn id v) -> cdelta (evsrc s e) (conns s c) (conns (doev s e) c).
+Proof.
+  intros Hs Hn. unfold doev. change locked_register with true.
+  destruct (step true s e) as [s'|] eqn:E; [|apply cdelta_refl].
+  destruct (step_cdelta s e s' c E Hs) as [H|((id & v & ->) & _)]; [exact H|]. now destruct (Hn id v).
+Qed.
+
+Definition gotrel (x y : conn) : Prop := got y = got x \/ got y = [].
+Lemma gotrel_trans x y z : gotrel x y -> gotrel y z -> gotrel x z.
+Proof. unfold gotrel. intuition congruence. Qed.
+
+Lemma doev_gotrel s e c : script_ev e -> gotrel (conns s c) (conns (doev s e) c).
+Proof.
+  intros Hs. unfold doev. change locked_register with true.
+  destruct (step true s e) as [s'|] eqn:E; [|now left].
+  destruct (step_cdelta s e s' c E Hs) as [(h & _)|(_ & h & _)]; [now left|now right].
+Qed.
+
+Lemma notify_all_got fuel : forall s c, got (conns (notify_all fuel s) c) = got (conns s c).
+Proof.
+  induction fuel as [|f IH]; intros s c; cbn [notify_all]; [reflexivity|].
+  destruct (pending s); [reflexivity|]. rewrite IH.
+  apply (doev_nospawn_cdelta s (Notify 0) c Logic.I). discriminate.
+Qed.
+
+Lemma unregister_full_got s x c : got (conns (unregister_full s x) c) = got (conns s c).
+Proof.
+  unfold unregister_full. rewrite notify_all_got.
+  apply (doev_nospawn_cdelta s (Unregister x) c Logic.I). discriminate.
+Qed.
+
+Lemma mid_gotrel s s' c : mid s s' -> gotrel (conns s c) (conns s' c).
+Proof.
+  intros M. destruct M.
+  - now apply doev_gotrel, simple_script.
+  - eapply gotrel_trans; apply doev_gotrel; exact Logic.I.
+  - left. apply unregister_full_got.
+  - eapply gotrel_trans; [apply (doev_gotrel s (Insert c0)); exact Logic.I|]. left. apply unregister_full_got.
+Qed.
+
+(* ---- the script invariant ---- *)
+Record SInv (ss : sstate) : Prop := {
+  si_reach : reach (st ss);
+  si_sett : Sett (st ss);
+  si_def : forall x, deferred ss = Some x ->
+           exists w, win ss = Some w /\ eid (conns (st ss) w) = eid (conns (st ss) x)
+}.
+
+Lemma SInv_settle ss s' w :
+  SInv ss -> mid (st ss) s' -> SInv (mkSS (settle s') w None).
+Proof.
+  intros [R S D] M. pose proof (mid_reach _ _ R M) as R'. constructor; cbn [st win deferred].
+  - now apply settle_reach.
+  - apply settle_Sett; [now apply reach_Inv|].
+    destruct (mid_pending _ _ M) as [H|H]; [assumption|]. rewrite H. apply (sett_p _ S).
+  - discriminate.
+Qed.
+
+Definition op_result (ss ss1 : sstate) : Prop :=
+  st ss1 = st ss \/ exists s', mid (st ss) s' /\ st ss1 = settle s'.
+
+Lemma exec_op_mid ss o : SInv ss -> op_result ss (fst (exec_op ss o)) /\ SInv (fst (exec_op ss o)).
+Proof.
+  intros HS. pose proof HS as [R S D].
+  assert (Hskip : op_result ss ss /\ SInv ss) by (split; [now left|assumption]).
+  assert (Hmid : forall s' w, mid (st ss) s' ->
+            op_result ss (mkSS (settle s') w None) /\ SInv (mkSS (settle s') w None)).
+  { intros s' w M. split; [right; eauto|eapply SInv_settle; eassumption]. }
+  unfold exec_op, skip. change locked_register with true.
+  destruct (deferred ss) as [x|] eqn:Ed.
+  - destruct (D x eq_refl) as (w & Hw & He). rewrite Hw.
+    destruct o; try exact Hskip. destruct (c =? w) eqn:E; [|exact Hskip].
+    apply N.eqb_eq in E. subst c. cbn [fst]. apply Hmid. now apply mid_ins_unreg.
+  - destruct o.
+    + destruct (win ss); [exact Hskip|]. cbn [fst]. apply Hmid. apply mid_ev. constructor.
+    + destruct (win ss) as [w|]; [|exact Hskip]. destruct (c =? w); [|exact Hskip].
+      cbn [fst]. apply Hmid. apply mid_ev. constructor.
+    + destruct (win ss); [exact Hskip|]. cbn [fst]. apply Hmid. apply mid_reg.
+    + destruct (_ && _); [|exact Hskip]. cbn [fst]. apply Hmid. apply mid_ev. constructor.
+    + destruct (_ && _); [|exact Hskip]. destruct (win ss) as [w|] eqn:Ew.
+      * destruct (eid (conns (st ss) w) =? eid (conns (st ss) c)) eqn:E; [|exact Hskip].
+        cbn [fst]. split; [now left|]. constructor; cbn [st win deferred]; auto.
+        intros x Hx. injection Hx as <-. exists w. split; [reflexivity|now apply N.eqb_eq].
+      * cbn [fst]. apply Hmid. apply mid_unreg.
+    + destruct (win ss); [exact Hskip|]. destruct (_ && _); [|exact Hskip].
+      cbn [fst]. apply Hmid. apply mid_ev. constructor.
+    + destruct (win ss); [exact Hskip|]. destruct (match o with Some c => _ | None => true end); [|exact Hskip].
+      cbn [fst]. apply Hmid. apply mid_ev. constructor.
+Qed.
+
+(* ---- reading the model's own observations ---- *)
+Lemma find_news (h : N -> list frame) c : forall L,
+  match find (fun e : N * list frame => fst e =? c)
+             (flat_map (fun c' => match h c' with [] => [] | l => [(c', l)] end) L) with
+  | Some (_, l) => l | None => [] end = if existsb (N.eqb c) L then h c else [].
+Proof.
+  induction L as [|a L IH]; cbn [flat_map existsb]; [reflexivity|].
+  destruct (h a) as [|f l] eqn:Ea; cbn [app find fst].
+  - rewrite IH. destruct (c =? a) eqn:E; cbn [orb]; [|reflexivity].
+    apply N.eqb_eq in E. subst. rewrite Ea. now destruct (existsb _ _).
+  - rewrite (N.eqb_sym a c). destruct (c =? a) eqn:E; cbn [orb]; [|exact IH].
+    apply N.eqb_eq in E. now subst.
+Qed.
+
+Definition news_fn (s0 s1 : state) (c : N) : list frame :=
+  skipn (length (got (conns s0 c))) (got (conns s1 c)).
+
+Lemma news_for_model ss0 ss1 r c :
+  news_for (observe ss0 ss1 r) c = if c <? nconns (st ss1) then news_fn (st ss0) (st ss1) c else [].
+Proof.
+  unfold news_for, observe, news_of. cbn [o_news].
+  rewrite (find_news (news_fn (st ss0) (st ss1)) c). now rewrite crange_existsb.
+Qed.
+
+Lemma news_of_in s0 s1 c l :
+  In (c, l) (news_of s0 s1) -> c < nconns s1 /\ l = news_fn s0 s1 c.
+Proof.
+  unfold news_of. intros H. apply in_flat_map in H as (c' & Hc & Hin).
+  fold (news_fn s0 s1 c') in Hin. destruct (news_fn s0 s1 c') eqn:E; [contradiction|].
+  destruct Hin as [Hin|[]]. injection Hin as <- <-. split; [|now rewrite E].
+  unfold crange in Hc. apply in_map_iff in Hc as (x & <- & Hx). apply in_seq in Hx. lia.
+Qed.
+
+Lemma news_fn_same s c : news_fn s s c = [].
+Proof. unfold news_fn. apply skipn_all. Qed.
+
+Lemma news_of_same s : news_of s s = [].
+Proof.
+  unfold news_of. induction (crange s) as [|a l IH]; cbn [flat_map]; [reflexivity|].
+  fold (news_fn s s a). now rewrite news_fn_same.
+Qed.
+
+Lemma in_skipn {A} (f : A) n l : In f (skipn n l) -> In f l.
+Proof. intros H. rewrite <- (firstn_skipn n l). apply in_or_app. now right. Qed.
+
+Lemma news_fn_settle s0 s' c f :
+  mid s0 s' -> c < nconns s' -> In f (news_fn s0 (settle s') c) -> In f (delivered s' c).
+Proof.
+  intros M Hc. unfold news_fn. rewrite settle_got by assumption.
+  destruct (mid_gotrel s0 s' c M) as [H|H]; rewrite H.
+  - rewrite skipn_app, skipn_all, Nat.sub_diag. cbn. auto.
+  - cbn [app]. apply in_skipn.
+Qed.
+
+Lemma settle_reg s' : reg (settle s') = reg s' /\ nconns (settle s') = nconns s' /\ cap (settle s') = cap s'.
+Proof. destruct (settle_spec s') as [(hn & hr & _ & _ & _ & hc) _]. auto. Qed.
+
+(* G1 on the model: a peer-gone notice for X received in an operation => X has no entry afterwards *)
+Lemma gone_news_no_entry ss0 ss1 c l X :
+  SInv ss0 -> op_result ss0 ss1 ->
+  In (c, l) (news_of (st ss0) (st ss1)) -> In (FGone X) l -> reg (st ss1) X = [].
+Proof.
+  intros [R S D] [Hsame|(s' & M & Hs')] Hin Hf.
+  - rewrite Hsame, news_of_same in Hin. contradiction.
+  - rewrite Hs' in *. apply news_of_in in Hin as [Hc ->].
+    destruct (settle_reg s') as (hr & hn & _). rewrite hn in Hc. rewrite hr.
+    apply (news_fn_settle _ _ _ _ M Hc) in Hf. unfold delivered in Hf.
+    destruct (is_running (cstate (conns s' c))) eqn:Er; [|contradiction].
+    destruct (negb _); [|contradiction]. cbn [andb] in Hf.
+    destruct (mid_gsafe _ _ R S M) as [G _]. apply (G c X Er Hf).
+Qed.
+
+(* the observed stack, on the model's own observation *)
+Lemma find_snapshot s id : forall L,
+  find (fun e : N * N * list N => fst (fst e) =? id)
+       (flat_map (fun i => match reg s i with [] => [] | a :: rest => [(i, a, rev rest)] end) L) =
+  if existsb (N.eqb id) L
+  then match reg s id with [] => None | a :: rest => Some (id, a, rev rest) end else None.
+Proof.
+  induction L as [|i L IH]; cbn [flat_map existsb]; [reflexivity|].
+  destruct (reg s i) as [|a rest] eqn:Ei; cbn [app find fst].
+  - rewrite IH. destruct (id =? i) eqn:E; cbn [orb]; [|reflexivity].
+    apply N.eqb_eq in E. subst. rewrite Ei. now destruct (existsb _ _).
+  - rewrite (N.eqb_sym i id). destruct (id =? i) eqn:E; cbn [orb]; [|exact IH].
+    apply N.eqb_eq in E. subst. now rewrite Ei.
+Qed.
+
+Lemma stack_of_snapshot_any s id :
+  stack_of_snap (snapshot s) id = if existsb (N.eqb id) ids then reg s id else [].
+Proof.
+  unfold stack_of_snap, snapshot. rewrite find_snapshot.
+  destruct (existsb _ _); [|reflexivity]. destruct (reg s id); [reflexivity|].
+  now rewrite rev_involutive.
+Qed.
+
+Lemma obs_stack_model ss0 ss1 r id :
+  Inv (st ss1) ->
+  obs_stack (st ss1) (observe ss0 ss1 r) id =
+  match win ss1 with
+  | None => if existsb (N.eqb id) ids then reg (st ss1) id else []
+  | Some _ => reg (st ss1) id
+  end.
+Proof.
+  intros I. unfold obs_stack, observe. cbn [o_snap o_states]. destruct (win ss1).
+  - now apply expected_stack_model.
+  - apply stack_of_snapshot_any.
+Qed.
+
+Lemma obs_stack_model_nil ss0 ss1 r id :
+  Inv (st ss1) -> reg (st ss1) id = [] -> obs_stack (st ss1) (observe ss0 ss1 r) id = [].
+Proof. intros I H. rewrite obs_stack_model by assumption. rewrite H. destruct (win ss1); [reflexivity|now destruct (existsb _ _)]. Qed.
+
+Lemma obs_stack_model_ids ss0 ss1 r id :
+  Inv (st ss1) -> In id ids -> obs_stack (st ss1) (observe ss0 ss1 r) id = reg (st ss1) id.
+Proof.
+  intros I H. rewrite obs_stack_model by assumption. destruct (win ss1); [reflexivity|].
+  replace (existsb (N.eqb id) ids) with true; [reflexivity|]. symmetry. apply existsb_exists.
+  exists id. split; [assumption|apply N.eqb_refl].
+Qed.
+
+Lemma obs_stack_model_cons ss0 ss1 r id a rest :
+  Inv (st ss1) -> obs_stack (st ss1) (observe ss0 ss1 r) id = a :: rest -> reg (st ss1) id = a :: rest.
+Proof.
+  intros I. rewrite obs_stack_model by assumption. destruct (win ss1); [auto|].
+  destruct (existsb _ _); [auto|discriminate].
+Qed.
+
+Lemma gone_ids_in X l : In X (gone_ids l) <-> In (FGone X) l.
+Proof.
+  unfold gone_ids. rewrite in_flat_map. split.
+  - intros (f & Hf & Hx). destruct f; try contradiction. destruct Hx as [<-|[]]. assumption.
+  - intros H. exists (FGone X). split; [assumption|now left].
+Qed.
+
+Lemma gone_only_after_last_model ss0 ss1 r :
+  SInv ss0 -> op_result ss0 ss1 -> Inv (st ss1) ->
+  gone_only_after_last (st ss1) (observe ss0 ss1 r) = true.
+Proof.
+  intros HS Hop I. unfold gone_only_after_last. apply forallb_forall. intros [c l] Hin.
+  apply forallb_forall. intros X HX. cbn [snd] in HX. apply gone_ids_in in HX.
+  unfold observe in Hin. cbn [o_news] in Hin.
+  rewrite obs_stack_model_nil; [reflexivity|assumption|].
+  eapply gone_news_no_entry; eassumption.
+Qed.
+
+(* ---- sent_to sets are strictly sorted, hence duplicate-free ---- *)
+Lemma add_sorted_in x l y : In y (add_sorted x l) -> y = x \/ In y l.
+Proof.
+  induction l as [|z r IH]; cbn; [intros [<-|[]]; auto|].
+  destruct (x <? z); [intros [<-|H]; auto|]. destruct (x =? z); [auto|].
+  intros [<-|H]; [right; now left|]. destruct (IH H); auto.
+Qed.
+
+Lemma add_sorted_SS x l : StronglySorted N.lt l -> StronglySorted N.lt (add_sorted x l).
+Proof.
+  induction 1 as [|z r Hs IH Hf]; cbn; [repeat constructor|].
+  destruct (x <? z) eqn:E1.
+  - apply N.ltb_lt in E1. constructor; [now constructor|]. constructor; [assumption|].
+    eapply Forall_impl; [|exact Hf]. intros w Hw. cbn in Hw. lia.
+  - destruct (x =? z) eqn:E2; [now constructor|]. apply N.ltb_ge in E1. apply N.eqb_neq in E2.
+    constructor; [assumption|]. apply Forall_forall. intros w Hw.
+    apply add_sorted_in in Hw as [->|Hw]; [lia|]. rewrite Forall_forall in Hf. now apply Hf.
+Qed.
+
+Lemma SS_NoDup l : StronglySorted N.lt l -> NoDup l.
+Proof.
+  induction 1 as [|z r Hs IH Hf]; constructor; [|assumption].
+  intros Hin. rewrite Forall_forall in Hf. apply Hf in Hin. lia.
+Qed.
+
+Lemma fold_cancel_sent l : forall t, sent (fold_left cancel l t) = sent t.
+Proof. induction l as [|z l IHl]; intros t; cbn; [reflexivity|]. now rewrite IHl. Qed.
+
+Lemma step_sent_sorted s e s' :
+  (forall id, StronglySorted N.lt (sent s id)) -> step true s e = Some s' ->
+  forall id, StronglySorted N.lt (sent s' id).
+Proof.
+  intros Hs H id. destruct e as [i v|c|c|c|c|k|a d tg|c pkt|i o]; cbn [step] in H.
+  - injection H as <-. apply Hs.
+  - destruct (_ && _); [|discriminate]. injection H as <-. cbn.
+    destruct (reg s (eid (conns s c))); cbn; [apply Hs|].
+    destruct (enqueue_m_fields s n (status_frame (ver (conns s n)) 1)) as (-> & _). apply Hs.
+  - destruct (_ <? _); [|discriminate]. injection H as <-. apply Hs.
+  - destruct (is_running _); [|discriminate]. injection H as <-. apply Hs.
+  - destruct (_ && _); [|discriminate]. injection H as <-. cbn.
+    destruct (reg s (eid (conns s c))) as [|a rest]; [apply Hs|].
+    destruct (a =? c); [|apply Hs]. destruct rest as [|p rest'].
+    + cbn. unfold fupd. destruct (id =? _); [constructor|apply Hs].
+    + destruct (enqueue_m_fields (set_reg s (eid (conns s c)) (p :: rest')) p (status_frame (ver (conns s p)) 0)) as (-> & _).
+      apply Hs.
+  - destruct (nth_error _ _) as [[gone peer]|]; [|discriminate].
+    set (s1 := set_pending s _) in *. destruct (reg s1 peer); injection H as <-; [apply Hs|].
+    destruct (enqueue_m_fields s1 n (FGone gone)) as (-> & _). apply Hs.
+  - destruct (is_running _); [|discriminate]. destruct (reg s d); [injection H as <-; apply Hs|].
+    destruct (is_done _); [injection H as <-; apply Hs|].
+    destruct (_ <? _); injection H as <-; [|apply Hs]. cbn. unfold fupd.
+    destruct (id =? _); [apply add_sorted_SS|]; apply Hs.
+  - destruct (is_running _); [|discriminate].
+    destruct pkt; [destruct (pq _)|destruct (mq _)]; try discriminate; injection H as <-; apply Hs.
+  - destruct o as [c|].
+    + destruct (existsb _ _); injection H as <-; apply Hs.
+    + injection H as <-. rewrite fold_cancel_sent. apply Hs.
+Qed.
+
+Lemma reach_sent_NoDup s : reach s -> forall id, NoDup (sent s id).
+Proof.
+  intros R id. apply SS_NoDup. revert id. induction R; [intros; constructor|].
+  eapply step_sent_sorted; eassumption.
+Qed.
+
+(* ---- when does an entry disappear ---- *)
+Lemma registered_eid s id c : Inv s -> In c (reg s id) -> eid (conns s c) = id /\ inserted (conns s c) = true.
+Proof.
+  intros I H. rewrite (inv_reg s I) in H. apply filter_In in H as [h1 h2].
+  apply live_for_true in h2 as [e1 _]. split; [assumption|now apply (inv_order s I)].
+Qed.
+
+Lemma notify_all_frame fuel : forall s,
+  (forall i, reg (notify_all fuel s) i = reg s i) /\ cap (notify_all fuel s) = cap s /\
+  nconns (notify_all fuel s) = nconns s.
+Proof.
+  induction fuel as [|f IH]; intros s; cbn [notify_all]; [auto|].
+  destruct (pending s) eqn:Ep; [auto|].
+  destruct (IH (doev s (Notify 0))) as (h1 & h2 & h3).
+  unfold doev in *. change locked_register with true in *.
+  destruct (step true s (Notify 0)) as [s'|] eqn:E; [|auto].
+  destruct (step_same_reg s _ s' E) as (a & _ & b & _).
+  split; [intros i; now rewrite h1|]. split; [|congruence].
+  rewrite h2. cbn [step] in E. destruct (nth_error _ _) as [[gone peer]|]; [|discriminate].
+  set (s1 := set_pending s _) in *. destruct (reg s1 peer) as [|b0 r0]; injection E as <-; [reflexivity|].
+  now destruct (enqueue_m_fields s1 b0 (FGone gone)) as (_ & _ & -> & _).
+Qed.
+
+Lemma unregister_step_reg s x sa :
+  Inv s -> step true s (Unregister x) = Some sa ->
+  forall i, reg sa i = if i =? eid (conns s x) then filter (fun y => negb (y =? x)) (reg s (eid (conns s x))) else reg s i.
+Proof.
+  intros I H. cbn [step] in H. destruct (_ && _); [|discriminate]. injection H as <-. cbn [reg set_conn].
+  apply unregister_entry. rewrite (inv_reg s I). apply NoDup_filter, (inv_nodup s I).
+Qed.
+
+Lemma filter_ne_nil (x : N) l : NoDup l -> filter (fun y => negb (y =? x)) l = [] -> l = [] \/ l = [x].
+Proof.
+  intros Hnd H. destruct l as [|a r]; [now left|]. right. cbn in H.
+  destruct (a =? x) eqn:E; cbn in H; [|discriminate]. apply N.eqb_eq in E. subst a.
+  inversion Hnd as [|? ? Hn _]. rewrite filter_id_notin in H by assumption. now subst.
+Qed.
+
+Lemma unregister_full_entry_gone s x X :
+  Inv s -> reg s X <> [] -> reg (unregister_full s x) X = [] ->
+  (exists sa, step true s (Unregister x) = Some sa) /\ eid (conns s x) = X /\ reg s X = [x].
+Proof.
+  intros I Hne H. unfold unregister_full in H.
+  destruct (notify_all_frame (length (pending (doev s (Unregister x)))) (doev s (Unregister x))) as (hr & _).
+  rewrite hr in H. unfold doev in H. change locked_register with true in H.
+  destruct (step true s (Unregister x)) as [sa|] eqn:E; [|contradiction].
+  rewrite (unregister_step_reg s x sa I E) in H.
+  destruct (X =? eid (conns s x)) eqn:EX; [|contradiction].
+  apply N.eqb_eq in EX. subst X. split; [eauto|]. split; [reflexivity|].
+  apply filter_ne_nil in H as [H|H]; [contradiction|assumption|].
+  rewrite (inv_reg s I). apply NoDup_filter, (inv_nodup s I).
+Qed.
+
+Lemma simple_reg_nonempty s e X : simple_ev e -> reg s X <> [] -> reg (doev s e) X <> [].
+Proof.
+  intros He Hne. unfold doev. change locked_register with true.
+  destruct (step true s e) as [s'|] eqn:E; [|assumption].
+  destruct He.
+  - cbn [step] in E. now injection E as <-.
+  - cbn [step] in E. destruct (_ && _); [|discriminate]. injection E as <-. cbn [reg].
+    destruct (insert_entry s c (eid (conns s c))) as (_ & _ & _ & hr). rewrite hr.
+    destruct (X =? _) eqn:EX; [|assumption]. discriminate.
+  - destruct (step_same_reg s _ s' E) as (_ & _ & hr & _). now rewrite hr.
+  - destruct (step_same_reg s _ s' E) as (_ & _ & hr & _). now rewrite hr.
+  - destruct (step_same_reg s _ s' E) as (_ & _ & hr & _). now rewrite hr.
+Qed.
+
+Lemma mid_entry_gone s s' X :
+  reach s -> mid s s' -> reg s X <> [] -> reg s' X = [] ->
+  exists x, s' = unregister_full s x /\ (exists sa, step true s (Unregister x) = Some sa) /\
+            eid (conns s x) = X /\ reg s X = [x].
+Proof.
+  intros R M Hne H. pose proof (reach_Inv s R) as I. destruct M.
+  - exfalso. revert H. now apply simple_reg_nonempty.
+  - exfalso. revert H. apply simple_reg_nonempty; [constructor|]. apply simple_reg_nonempty; [constructor|assumption].
+  - exists c. split; [reflexivity|]. now apply unregister_full_entry_gone.
+  - unfold doev at 1 in H. unfold doev at 1. change locked_register with true in *.
+    destruct (step true s (Insert c)) as [si|] eqn:Ei.
+    2:{ exists x. split; [reflexivity|]. now apply unregister_full_entry_gone. }
+    exfalso.
+    assert (Ii : Inv si) by (eapply Inv_step; eassumption).
+    pose proof Ei as Ei'. cbn [step] in Ei'.
+    destruct ((c <? nconns s) && negb (inserted (conns s c))) eqn:Eg; [|discriminate].
+    apply andb_prop in Eg as [_ Eni]. apply negb_true_iff in Eni.
+    destruct (insert_entry s c (eid (conns s c))) as (_ & _ & hs & hr).
+    assert (Hri : forall i, reg si i = if i =? eid (conns s c) then c :: reg s (eid (conns s c)) else reg s i).
+    { injection Ei' as <-. cbn [reg]. exact hr. }
+    assert (Hex : eid (conns si x) = eid (conns s x)).
+    { injection Ei' as <-. cbn [conns]. unfold fupd. destruct (x =? c) eqn:Exc.
+      - apply N.eqb_eq in Exc. subst x. cbn. destruct (hs c) as (e1 & _). now rewrite <- e1.
+      - destruct (hs x) as (e1 & _). now rewrite <- e1. }
+    assert (Hnei : reg si X <> []).
+    { rewrite Hri. destruct (X =? _); [discriminate|assumption]. }
+    destruct (unregister_full_entry_gone si x X Ii Hnei H) as (_ & HeX & Hrx).
+    rewrite Hri in Hrx. rewrite Hex, <- H0 in HeX. rewrite <- HeX, N.eqb_refl in Hrx.
+    injection Hrx as Hcx Hnil. rewrite HeX in Hnil. contradiction.
+Qed.
+
+(* ---- the notification loop: the active connection of each peer gets exactly one notice ---- *)
+Definition keeps (x y : conn) : Prop :=
+  cstate y = cstate x /\ pq y = pq x /\ cancelled y = cancelled x /\ closed y = closed x.
+
+Lemma enqueue_m_keeps s a f c : keeps (conns s c) (conns (enqueue_m s a f) c).
+Proof.
+  unfold enqueue_m. destruct (is_done _); [repeat split|]. destruct (_ <? _); [|repeat split].
+  cbn. unfold fupd. destruct (c =? a) eqn:E; [|repeat split]. apply N.eqb_eq in E. subst. repeat split.
+Qed.
+
+Lemma enqueue_m_mq_other s a f c : c <> a -> mq (conns (enqueue_m s a f) c) = mq (conns s c).
+Proof.
+  intros H. unfold enqueue_m. destruct (is_done _); [reflexivity|]. destruct (_ <? _); [|reflexivity].
+  cbn. now rewrite fupd_other.
+Qed.
+
+Lemma notify_all_one X p a rest (R : N -> list N) : forall L t,
+  NoDup L -> pending t = map (pair X) L -> (forall i, reg t i = R i) ->
+  R p = a :: rest -> (forall p' c, p' <> p -> In c (R p') -> c <> a) ->
+  is_done (cstate (conns t a)) = false -> 1 <= cap t ->
+  let t' := notify_all (length L) t in
+  keeps (conns t a) (conns t' a) /\
+  (In p L -> mq (conns t a) = [] -> mq (conns t' a) = [FGone X]) /\
+  (~ In p L -> mq (conns t' a) = mq (conns t a)).
+Proof.
+  induction L as [|p' L IH]; intros t Hnd Hp Hr HRp Hoth Hdone Hcap; cbn [length notify_all].
+  - split; [repeat split|]. split; [contradiction|reflexivity].
+  - cbn [map] in Hp. rewrite Hp.
+    inversion Hnd as [|? ? Hn Hnd']. subst.
+    set (t1 := doev t (Notify 0)).
+    assert (Ht1 : t1 = match R p' with
+                       | [] => set_pending t (map (pair X) L)
+                       | b :: _ => enqueue_m (set_pending t (map (pair X) L)) b (FGone X)
+                       end).
+    { unfold t1, doev. change locked_register with true. cbn [step]. rewrite Hp.
+      cbn [N.to_nat nth_error remove_nth]. cbn [reg set_pending]. rewrite Hr. now destruct (R p'). }
+    set (t0 := set_pending t (map (pair X) L)) in *.
+    assert (Hp1 : pending t1 = map (pair X) L).
+    { rewrite Ht1. destruct (R p'); [reflexivity|].
+      now destruct (enqueue_m_fields t0 n (FGone X)) as (_ & -> & _). }
+    assert (Hr1 : forall i, reg t1 i = R i).
+    { intros i. rewrite Ht1. destruct (R p'); [apply Hr|].
+      destruct (enqueue_m_fields t0 n (FGone X)) as (_ & _ & _ & ->). apply Hr. }
+    assert (Hc1 : cap t1 = cap t).
+    { rewrite Ht1. destruct (R p'); [reflexivity|].
+      now destruct (enqueue_m_fields t0 n (FGone X)) as (_ & _ & -> & _). }
+    assert (Hk1 : keeps (conns t a) (conns t1 a)).
+    { rewrite Ht1. destruct (R p'); [repeat split|]. apply (enqueue_m_keeps t0). }
+    assert (Hd1 : is_done (cstate (conns t1 a)) = false).
+    { destruct Hk1 as (-> & _). assumption. }
+    destruct (IH t1 Hnd' Hp1 Hr1 HRp Hoth Hd1 ltac:(lia)) as (K & Hin & Hnin).
+    split; [|split].
+    + destruct Hk1 as (k1 & k2 & k3 & k4), K as (k1' & k2' & k3' & k4'). repeat split; congruence.
+    + intros [->|HpL] Hmq.
+      * rewrite Hnin by assumption. rewrite Ht1, HRp. unfold enqueue_m. cbn [conns set_pending cap].
+        fold t0. replace (conns t0 a) with (conns t a) by reflexivity. rewrite Hdone, Hmq.
+        replace (len [] <? cap t) with true by (symmetry; apply N.ltb_lt; cbn; lia).
+        cbn. now rewrite fupd_same.
+      * apply Hin; [assumption|]. rewrite Ht1.
+        assert (p' <> p) by (intros ->; contradiction).
+        destruct (R p') as [|b r] eqn:ER; [exact Hmq|].
+        rewrite enqueue_m_mq_other; [exact Hmq|]. intros ->. apply (Hoth p' b); [assumption|rewrite ER; now left|reflexivity].
+    + intros Hn'. rewrite Hnin by (intros Hx; apply Hn'; now right). rewrite Ht1.
+      assert (p' <> p) by (intros ->; apply Hn'; now left).
+      destruct (R p') as [|b r] eqn:ER; [reflexivity|].
+      rewrite enqueue_m_mq_other; [reflexivity|]. intros ->. apply (Hoth p' b); [assumption|rewrite ER; now left|reflexivity].
+Qed.
+
+Lemma keeps_trans x y z : keeps x y -> keeps y z -> keeps x z.
+Proof. unfold keeps. intuition congruence. Qed.
+
+Lemma notify_all_keeps fuel : forall s c, keeps (conns s c) (conns (notify_all fuel s) c).
+Proof.
+  induction fuel as [|f IH]; intros s c; cbn [notify_all]; [repeat split|].
+  destruct (pending s) as [|[gone peer] r] eqn:Ep; [repeat split|].
+  eapply keeps_trans; [|apply IH]. unfold doev. change locked_register with true. cbn [step].
+  rewrite Ep. cbn [N.to_nat nth_error remove_nth].
+  destruct (reg (set_pending s r) peer); [repeat split|]. apply (enqueue_m_keeps (set_pending s r)).
+Qed.
+
+Lemma unregister_last_news s0 x sa X p a rest :
+  reach s0 -> Sett s0 -> step true s0 (Unregister x) = Some sa ->
+  eid (conns s0 x) = X -> reg s0 X = [x] -> In p (sent s0 X) ->
+  reg (unregister_full s0 x) p = a :: rest ->
+  is_running (cstate (conns (unregister_full s0 x) a)) = true -> 1 <= cap s0 ->
+  got (conns (unregister_full s0 x) a) = got (conns s0 a) /\
+  pq (conns (unregister_full s0 x) a) = [] /\ mq (conns (unregister_full s0 x) a) = [FGone X].
+Proof.
+  intros R S E HX Hreg Hp Hra Hrun Hcap.
+  pose proof (reach_Inv s0 R) as I.
+  assert (Isa : Inv sa) by (eapply Inv_step; eassumption).
+  split; [apply unregister_full_got|].
+  unfold unregister_full, doev in *. change locked_register with true in *. rewrite E in *.
+  pose proof E as E'. cbn [step] in E'. destruct (_ && _); [|discriminate].
+  rewrite HX, Hreg, N.eqb_refl, (sett_p s0 S) in E'. cbn [app] in E'.
+  assert (Hpend : pending sa = map (pair X) (sent s0 X)) by (injection E' as <-; reflexivity).
+  assert (Hcap' : cap sa = cap s0) by (injection E' as <-; reflexivity).
+  assert (Hconn : forall c, c <> x -> conns sa c = conns s0 c).
+  { intros c Hc. injection E' as <-. cbn [conns set_conn]. now rewrite fupd_other. }
+  assert (Hx : cstate (conns sa x) = Done).
+  { injection E' as <-. cbn [conns set_conn]. now rewrite fupd_same. }
+  rewrite Hpend, map_length in *.
+  destruct (notify_all_frame (length (sent s0 X)) sa) as (hr & _).
+  rewrite hr in Hra.
+  pose proof (notify_all_keeps (length (sent s0 X)) sa a) as (k1 & _).
+  assert (Hrsa : is_running (cstate (conns sa a)) = true) by (now rewrite <- k1).
+  assert (Hax : a <> x) by (intros ->; rewrite Hx in Hrsa; discriminate).
+  assert (Hrs0 : is_running (cstate (conns s0 a)) = true) by (now rewrite <- Hconn).
+  destruct (sett_q s0 S a Hrs0) as (_ & q1 & q2).
+  destruct (notify_all_one X p a rest (reg sa) (sent s0 X) sa) as ((_ & kp & _) & Hin & _); auto.
+  - now apply reach_sent_NoDup.
+  - intros p' c Hne Hc ->. destruct (registered_eid sa p' a Isa Hc) as [e1 _].
+    assert (In a (reg sa p)) by (rewrite Hra; now left).
+    destruct (registered_eid sa p a Isa H) as [e2 _]. congruence.
+  - destruct (cstate (conns sa a)); cbn in *; congruence.
+  - lia.
+  - split.
+    + rewrite kp, Hconn by assumption. exact q1.
+    + apply Hin; [assumption|]. now rewrite Hconn.
+Qed.
+
+Lemma obs_running_model ss0 ss1 r a :
+  obs_running (observe ss0 ss1 r) a = true ->
+  a < nconns (st ss1) /\ is_running (cstate (conns (st ss1) a)) = true.
+Proof.
+  unfold obs_running, observe. cbn [o_states]. intros H.
+  destruct (N.lt_ge_cases a (nconns (st ss1))) as [Hlt|Hge].
+  - split; [assumption|]. rewrite nth_states in H by assumption.
+    now destruct (cstate (conns (st ss1) a)).
+  - rewrite nth_overflow in H; [discriminate|].
+    unfold states_of, crange. rewrite !map_length, seq_length. lia.
+Qed.
+
+Lemma gone_delivered_model ss0 ss1 r :
+  SInv ss0 -> op_result ss0 ss1 -> Inv (st ss1) ->
+  gone_delivered (st ss0) (st ss1) (observe ss0 ss1 r) = true.
+Proof.
+  intros [R S D] Hop I. unfold gone_delivered. apply forallb_forall. intros X HX.
+  destruct (negb (is_nil (reg (st ss0) X)) && is_nil (obs_stack _ _ X)) eqn:Ec; [|reflexivity].
+  apply andb_prop in Ec as [Ec1 Ec2]. rewrite obs_stack_model_ids in Ec2 by assumption.
+  assert (Hne : reg (st ss0) X <> []) by (intros Hx; rewrite Hx in Ec1; discriminate).
+  assert (Hnil : reg (st ss1) X = []) by (destruct (reg (st ss1) X); [reflexivity|discriminate]).
+  apply forallb_forall. intros p Hp.
+  destruct (obs_stack _ _ p) as [|a rest] eqn:Ea; [reflexivity|].
+  apply obs_stack_model_cons in Ea; [|assumption].
+  destruct (obs_running _ a && (1 <=? cap (st ss0))) eqn:Eg; [|reflexivity].
+  apply andb_prop in Eg as [Eg1 Eg2]. apply obs_running_model in Eg1 as [Hlt Hrun].
+  apply N.leb_le in Eg2.
+  destruct Hop as [Hsame|(s' & M & Hs')]; [rewrite Hsame in Hnil; contradiction|].
+  rewrite news_for_model. apply N.ltb_lt in Hlt. rewrite Hlt. apply N.ltb_lt in Hlt.
+  rewrite Hs' in *. destruct (settle_reg s') as (hr & hn & _). rewrite hr in *. rewrite hn in Hlt.
+  destruct (mid_entry_gone _ _ X R M Hne Hnil) as (x & -> & (sa & E) & HeX & Hrx).
+  pose proof (mid_reach _ _ R M) as R'.
+  destruct (settle_running _ a (reach_Inv _ R') Hrun) as (_ & Hr' & Hcc).
+  destruct (unregister_last_news _ x sa X p a rest R S E HeX Hrx Hp Ea Hr' Eg2) as (g1 & g2 & g3).
+  unfold news_fn. rewrite settle_got by assumption. rewrite g1, skipn_app, skipn_all, Nat.sub_diag.
+  unfold delivered. rewrite Hr', Hcc, g2, g3. unfold count_frame. cbn [andb negb app skipn filter frame_eqb].
+  rewrite N.eqb_refl. reflexivity.
+Qed.
+
+
+(* ---- the took-over / healthy notices reach the connection they are meant for ---- *)
+Definition mqmono (x y : conn) : Prop := forall f, In f (mq x) -> In f (mq y).
+Lemma mqmono_refl x : mqmono x x.
+Proof. intros f H. exact H. Qed.
+Lemma mqmono_trans x y z : mqmono x y -> mqmono y z -> mqmono x z.
+Proof. intros H1 H2 f H. auto. Qed.
+
+Lemma enqueue_m_mqmono s b g c : mqmono (conns s c) (conns (enqueue_m s b g) c).
+Proof.
+  unfold enqueue_m. destruct (is_done _); [apply mqmono_refl|]. destruct (_ <? _); [|apply mqmono_refl].
+  cbn. unfold fupd. destruct (c =? b) eqn:E; [|apply mqmono_refl]. apply N.eqb_eq in E. subst.
+  intros f H. cbn. apply in_or_app. now left.
+Qed.
+
+Lemma cancel_mqmono s b c : mqmono (conns s c) (conns (cancel s b) c).
+Proof.
+  unfold cancel. cbn. unfold fupd. destruct (c =? b) eqn:E; [|apply mqmono_refl].
+  apply N.eqb_eq in E. subst. intros f H. exact H.
+Qed.
+
+Lemma fold_cancel_mqmono l : forall s c, mqmono (conns s c) (conns (fold_left cancel l s) c).
+Proof.
+  induction l as [|a l IH]; intros s c; cbn; [apply mqmono_refl|].
+  eapply mqmono_trans; [apply cancel_mqmono|apply IH].
+Qed.
+
+(* one registry event, seen from a connection that already exists *)
+Lemma step_old s e s' c :
+  step true s e = Some s' -> script_ev e -> c < nconns s ->
+  cdelta (evsrc s e) (conns s c) (conns s' c) /\ mqmono (conns s c) (conns s' c) /\
+  nconns s <= nconns s'.
+Proof.
+  intros H Hs Hc.
+  assert (H1 : cdelta (evsrc s e) (conns s c) (conns s' c)).
+  { destruct (step_cdelta s e s' c H Hs) as [Hd|((id & v & ->) & _)]; [exact Hd|].
+    cbn [step] in H. injection H as <-. cbn. rewrite fupd_other by lia. apply cdelta_refl. }
+  split; [exact H1|].
+  destruct e as [id v|c0|c0|c0|c0|k|a d tg|c0 pkt|id o]; try contradiction; cbn [step] in H.
+  - injection H as <-. cbn. rewrite fupd_other by lia. split; [apply mqmono_refl|lia].
+  - destruct (_ && _); [|discriminate]. injection H as <-. cbn.
+    set (s1 := match reg s (eid (conns s c0)) with [] => _ | _ :: _ => _ end).
+    assert (Hm : mqmono (conns s c) (conns s1 c) /\ nconns s1 = nconns s).
+    { unfold s1. destruct (reg s (eid (conns s c0))) as [|a rest]; [split; [apply mqmono_refl|reflexivity]|].
+      cbn. split; [apply enqueue_m_mqmono|].
+      now destruct (same_reg_enqueue_m s a (status_frame (ver (conns s a)) 1)) as (-> & _). }
+    destruct Hm as [Hm Hn]. split; [|lia].
+    unfold fupd. destruct (c =? c0) eqn:E; [|exact Hm]. apply N.eqb_eq in E. subst c0.
+    eapply mqmono_trans; [exact Hm|]. intros f Hf. exact Hf.
+  - destruct (_ <? _); [|discriminate]. injection H as <-. cbn. split; [|lia]. unfold fupd.
+    destruct (c =? c0) eqn:E; [|apply mqmono_refl]. apply N.eqb_eq in E. subst. intros f Hf. exact Hf.
+  - destruct (_ && _); [|discriminate]. injection H as <-. cbn.
+    set (s1 := match reg s (eid (conns s c0)) with [] => s | _ :: _ => _ end).
+    assert (Hm : mqmono (conns s c) (conns s1 c) /\ nconns s1 = nconns s).
+    { unfold s1. destruct (reg s (eid (conns s c0))) as [|a rest]; [split; [apply mqmono_refl|reflexivity]|].
+      destruct (a =? c0); [|split; [apply mqmono_refl|reflexivity]].
+      destruct rest as [|p rest']; [split; [apply mqmono_refl|reflexivity]|].
+      split; [apply (enqueue_m_mqmono (set_reg s (eid (conns s c0)) (p :: rest')))|].
+      now destruct (same_reg_enqueue_m (set_reg s (eid (conns s c0)) (p :: rest')) p (status_frame (ver (conns s p)) 0)) as (-> & _). }
+    destruct Hm as [Hm Hn]. split; [|lia].
+    unfold fupd. destruct (c =? c0) eqn:E; [|exact Hm]. apply N.eqb_eq in E. subst c0.
+    eapply mqmono_trans; [exact Hm|]. intros f Hf. exact Hf.
+  - destruct (nth_error (pending s) (N.to_nat k)) as [[gone peer]|] eqn:En; [|discriminate].
+    set (s1 := set_pending s _) in *.
+    destruct (reg s1 peer) as [|a rest]; injection H as <-; [split; [apply mqmono_refl|cbn; lia]|].
+    split; [apply (enqueue_m_mqmono s1)|].
+    destruct (same_reg_enqueue_m s1 a (FGone gone)) as (-> & _). cbn. lia.
+  - destruct (is_running _); [|discriminate].
+    destruct (reg s d) as [|b rest]; [injection H as <-; split; [apply mqmono_refl|lia]|].
+    destruct (is_done _); [injection H as <-; split; [apply cancel_mqmono|cbn; lia]|].
+    destruct (_ <? _); injection H as <-; [|split; [apply mqmono_refl|lia]]. cbn. split; [|lia]. unfold fupd.
+    destruct (c =? b) eqn:E; [|apply mqmono_refl]. apply N.eqb_eq in E. subst c. intros f Hf. exact Hf.
+  - destruct o as [c1|].
+    + destruct (existsb _ _); injection H as <-; [split; [apply cancel_mqmono|cbn; lia]|split; [apply mqmono_refl|lia]].
+    + injection H as <-. split; [apply fold_cancel_mqmono|].
+      destruct (same_reg_fold_cancel (reg s id) s) as (-> & _). lia.
+Qed.
+
+(* what a connection that exists keeps through a sequence of script events *)
+Definition oldrel (s s' : state) (c : N) : Prop :=
+  got (conns s' c) = got (conns s c) /\
+  (is_running (cstate (conns s' c)) = true -> is_running (cstate (conns s c)) = true) /\
+  mqmono (conns s c) (conns s' c) /\ nconns s <= nconns s'.
+
+Lemma oldrel_refl s c : oldrel s s c.
+Proof. repeat split; auto. apply mqmono_refl. lia. Qed.
+Lemma oldrel_trans s t u c : oldrel s t c -> oldrel t u c -> oldrel s u c.
+Proof.
+  intros (a1 & a2 & a3 & a4) (b1 & b2 & b3 & b4). split; [congruence|]. split; [auto|].
+  split; [eapply mqmono_trans; eassumption|lia].
+Qed.
+
+Lemma doev_oldrel s e c : script_ev e -> c < nconns s -> oldrel s (doev s e) c.
+Proof.
+  intros Hs Hc. unfold doev. change locked_register with true.
+  destruct (step true s e) as [s'|] eqn:E; [|apply oldrel_refl].
+  destruct (step_old s e s' c E Hs Hc) as ((h1 & h2 & _) & h3 & h4). repeat split; auto.
+Qed.
+
+Lemma notify_all_oldrel fuel : forall s c, c < nconns s -> oldrel s (notify_all fuel s) c.
+Proof.
+  induction fuel as [|f IH]; intros s c Hc; cbn [notify_all]; [apply oldrel_refl|].
+  destruct (pending s); [apply oldrel_refl|].
+  pose proof (doev_oldrel s (Notify 0) c Logic.I Hc) as H1.
+  eapply oldrel_trans; [exact H1|]. apply IH. destruct H1 as (_ & _ & _ & Hn). lia.
+Qed.
+
+Lemma unregister_full_oldrel s x c : c < nconns s -> oldrel s (unregister_full s x) c.
+Proof.
+  intros Hc. unfold unregister_full.
+  pose proof (doev_oldrel s (Unregister x) c Logic.I Hc) as H1.
+  eapply oldrel_trans; [exact H1|]. apply notify_all_oldrel. destruct H1 as (_ & _ & _ & Hn). lia.
+Qed.
+
+Lemma registered_lt s id c : Inv s -> In c (reg s id) -> c < nconns s.
+Proof.
+  intros I H. destruct (registered_eid s id c I H) as [_ Hi].
+  destruct (N.lt_ge_cases c (nconns s)) as [?|Hge]; [assumption|].
+  destruct (inv_fresh s I c Hge). congruence.
+Qed.
+
+(* a frame in the message queue of an old connection before the final settle is among the
+   frames it receives in the operation, if it is running afterwards *)
+Lemma news_has s0 s' a f :
+  Inv s' -> oldrel s0 s' a -> a < nconns s0 ->
+  is_running (cstate (conns (settle s') a)) = true ->
+  In f (mq (conns s' a)) -> In f (news_fn s0 (settle s') a).
+Proof.
+  intros I (hg & _ & _ & hn) Ha Hrun Hf.
+  destruct (settle_running s' a I Hrun) as (Hlt & Hr & Hcc).
+  unfold news_fn. rewrite settle_got by assumption. rewrite hg, skipn_app, skipn_all, Nat.sub_diag.
+  cbn [skipn app]. unfold delivered. rewrite Hr, Hcc. cbn [andb negb]. apply in_or_app. now right.
+Qed.
+
+Lemma existsb_frame f l : In f l -> existsb (frame_eqb f) l = true.
+Proof.
+  intros H. apply existsb_exists. exists f. split; [assumption|].
+  destruct f; cbn; rewrite ?N.eqb_refl; reflexivity.
+Qed.
+
+Lemma room_of_sett s a : Sett s -> is_running (cstate (conns s a)) = true -> 1 <= cap s -> room s a.
+Proof.
+  intros S Hr Hc. destruct (sett_q s S a Hr) as (_ & _ & Hm). split.
+  - intros Hd. rewrite Hd in Hr. discriminate.
+  - rewrite Hm. cbn. lia.
+Qed.
+
+Lemma doev_insert_reg s c i :
+  reg (doev s (Insert c)) i = reg s i \/
+  ((exists s', step true s (Insert c) = Some s') /\ i = eid (conns s c) /\ reg (doev s (Insert c)) i = c :: reg s i).
+Proof.
+  unfold doev. change locked_register with true.
+  destruct (step true s (Insert c)) as [s'|] eqn:E; [|now left].
+  pose proof E as E'. cbn [step] in E'. destruct (_ && _); [|discriminate]. injection E' as <-. cbn [reg].
+  destruct (insert_entry s c (eid (conns s c))) as (_ & _ & _ & hr). rewrite hr.
+  destruct (i =? eid (conns s c)) eqn:Ei; [|now left]. apply N.eqb_eq in Ei. subst i.
+  right. split; [eauto|]. split; reflexivity.
+Qed.
+
+Lemma doev_unregister_reg s x i : Inv s ->
+  reg (doev s (Unregister x)) i = reg s i \/
+  ((exists s', step true s (Unregister x) = Some s') /\ i = eid (conns s x) /\
+   reg (doev s (Unregister x)) i = filter (fun y => negb (y =? x)) (reg s i)).
+Proof.
+  intros I. unfold doev. change locked_register with true.
+  destruct (step true s (Unregister x)) as [s'|] eqn:E; [|now left].
+  rewrite (unregister_step_reg s x s' I E).
+  destruct (i =? eid (conns s x)) eqn:Ei; [|now left]. apply N.eqb_eq in Ei. subst i.
+  right. split; [eauto|]. split; reflexivity.
+Qed.
+
+Lemma unregister_full_reg s x i : reg (unregister_full s x) i = reg (doev s (Unregister x)) i.
+Proof. unfold unregister_full. apply notify_all_frame. Qed.
+
+Lemma simple_reg_cases s e i : simple_ev e ->
+  reg (doev s e) i = reg s i \/
+  exists c, e = Insert c /\ (exists s', step true s (Insert c) = Some s') /\ i = eid (conns s c) /\
+            reg (doev s e) i = c :: reg s i.
+Proof.
+  intros He. destruct He.
+  - left. unfold doev. change locked_register with true. cbn [step]. reflexivity.
+  - destruct (doev_insert_reg s c i) as [H|H]; [now left|right; eauto].
+  - left. unfold doev. change locked_register with true.
+    destruct (step true s (Close c)) as [s'|] eqn:E; [|reflexivity].
+    now destruct (step_same_reg s _ s' E) as (_ & _ & hr & _).
+  - left. unfold doev. change locked_register with true.
+    destruct (step true s (Send a d t)) as [s'|] eqn:E; [|reflexivity].
+    now destruct (step_same_reg s _ s' E) as (_ & _ & hr & _).
+  - left. unfold doev. change locked_register with true.
+    destruct (step true s (Disconnect id o)) as [s'|] eqn:E; [|reflexivity].
+    now destruct (step_same_reg s _ s' E) as (_ & _ & hr & _).
+Qed.
+
+Lemma insert_told s c a rest0 :
+  Inv s -> (exists s', step true s (Insert c) = Some s') ->
+  reg s (eid (conns s c)) = a :: rest0 -> room s a ->
+  In (status_frame (ver (conns s a)) 1) (mq (conns (doev s (Insert c)) a)).
+Proof.
+  intros I (s' & E) Hreg Hroom. unfold doev. change locked_register with true. rewrite E.
+  destruct (displaced_is_told s c s' a rest0 I E Hreg) as (_ & H). rewrite (H Hroom).
+  apply in_or_app. right. now left.
+Qed.
+
+Lemma insert_enabled_fresh s c s' : step true s (Insert c) = Some s' -> inserted (conns s c) = false.
+Proof.
+  cbn [step]. destruct ((c <? nconns s) && negb (inserted (conns s c))) eqn:E; [|discriminate].
+  intros _. apply andb_prop in E as [_ E]. now apply negb_true_iff in E.
+Qed.
+
+Lemma insert_eid s c x : eid (conns (doev s (Insert c)) x) = eid (conns s x).
+Proof.
+  unfold doev. change locked_register with true.
+  destruct (step true s (Insert c)) as [s'|] eqn:E; [|reflexivity].
+  cbn [step] in E. destruct (_ && _); [|discriminate]. injection E as <-. cbn [conns].
+  destruct (insert_entry s c (eid (conns s c))) as (_ & _ & hs & _).
+  unfold fupd. destruct (x =? c) eqn:Exc.
+  - apply N.eqb_eq in Exc. subst x. cbn. destruct (hs c) as (e1 & _). now rewrite <- e1.
+  - destruct (hs x) as (e1 & _). now rewrite <- e1.
+Qed.
+
+Lemma took_over_mid s0 s' id a rest0 c :
+  reach s0 -> Sett s0 -> mid s0 s' ->
+  reg s0 id = a :: rest0 -> In c (reg s' id) -> ~ In c (reg s0 id) ->
+  is_running (cstate (conns s' a)) = true -> 1 <= cap s0 ->
+  oldrel s0 s' a /\ In (status_frame (ver (conns s0 a)) 1) (mq (conns s' a)).
+Proof.
+  intros R S M Hreg Hc Hnc Hrun Hcap. pose proof (reach_Inv s0 R) as I.
+  assert (Ha : a < nconns s0) by (eapply registered_lt; [eassumption|rewrite Hreg; now left]).
+  destruct M.
+  - (* one simple event *)
+    pose proof (doev_oldrel s0 e a (simple_script e H) Ha) as O. split; [exact O|].
+    destruct (simple_reg_cases s0 e id H) as [Hr|(c0 & -> & Hen & Hid & Hr)]; rewrite Hr in Hc; [contradiction|].
+    destruct Hc as [<-|Hc]; [|contradiction]. subst id.
+    apply (insert_told s0 c0 a rest0 I Hen Hreg). apply room_of_sett; auto.
+    destruct O as (_ & Hb & _). auto.
+  - (* spawn + insert *)
+    set (s1 := doev s0 (Spawn id0 v)) in *.
+    assert (R1 : reach s1) by now apply doev_reach.
+    pose proof (doev_oldrel s0 (Spawn id0 v) a Logic.I Ha) as O1. fold s1 in O1.
+    assert (Ha1 : a < nconns s1) by (destruct O1 as (_ & _ & _ & Hn); lia).
+    pose proof (doev_oldrel s1 (Insert (nconns s0)) a Logic.I Ha1) as O2.
+    split; [eapply oldrel_trans; eassumption|].
+    assert (Hr1 : forall i, reg s1 i = reg s0 i) by (intros i; reflexivity).
+    assert (Hconn : conns s1 a = conns s0 a).
+    { unfold s1, doev. change locked_register with true. cbn [step conns]. apply fupd_other. lia. }
+    destruct (doev_insert_reg s1 (nconns s0) id) as [Hr|(Hen & Hid & Hr)]; rewrite Hr, Hr1 in Hc; [contradiction|].
+    destruct Hc as [<-|Hc]; [|contradiction].
+    rewrite <- Hconn. apply (insert_told s1 (nconns s0) a rest0 (reach_Inv _ R1) Hen).
+    + rewrite <- Hid, Hr1. exact Hreg.
+    + destruct O2 as (_ & Hb & _). specialize (Hb Hrun). rewrite Hconn in Hb.
+      destruct (room_of_sett s0 a S Hb Hcap) as [r1 r2]. split; rewrite Hconn; [exact r1|exact r2].
+  - (* unregister: nothing new is registered *)
+    exfalso. rewrite unregister_full_reg in Hc.
+    destruct (doev_unregister_reg s0 c0 id I) as [Hr|(_ & _ & Hr)]; rewrite Hr in Hc; [contradiction|].
+    apply filter_In in Hc as [Hc _]. contradiction.
+  - (* insert, then the deferred unregister *)
+    set (s1 := doev s0 (Insert c0)) in *.
+    assert (R1 : reach s1) by now apply doev_reach.
+    pose proof (doev_oldrel s0 (Insert c0) a Logic.I Ha) as O1. fold s1 in O1.
+    assert (Ha1 : a < nconns s1) by (destruct O1 as (_ & _ & _ & Hn); lia).
+    pose proof (unregister_full_oldrel s1 x a Ha1) as O2.
+    split; [eapply oldrel_trans; eassumption|].
+    assert (Hc1 : In c (reg s1 id)).
+    { rewrite unregister_full_reg in Hc.
+      destruct (doev_unregister_reg s1 x id (reach_Inv _ R1)) as [Hr|(_ & _ & Hr)]; rewrite Hr in Hc; [exact Hc|].
+      now apply filter_In in Hc as [Hc _]. }
+    destruct (doev_insert_reg s0 c0 id) as [Hr|(Hen & Hid & Hr)]; fold s1 in Hr; rewrite Hr in Hc1; [contradiction|].
+    destruct Hc1 as [<-|Hc1]; [|contradiction]. subst id.
+    destruct O2 as (_ & Hb2 & Hm2 & _). apply Hm2.
+    apply (insert_told s0 c0 a rest0 I Hen Hreg). apply room_of_sett; auto.
+    destruct O1 as (_ & Hb1 & _). auto.
+Qed.
+
+Lemma filter_ne_keeps (x c : N) l : c <> x -> In c l -> In c (filter (fun y => negb (y =? x)) l).
+Proof. intros Hne Hin. apply filter_In. split; [assumption|]. apply negb_true_iff. now apply N.eqb_neq. Qed.
+
+(* the active connection c unregisters and p, the most recently displaced one, is active after it *)
+Lemma healthy_unreg s x id c p rest0 rest1 :
+  Inv s -> reg s id = c :: p :: rest0 -> reg (unregister_full s x) id = p :: rest1 ->
+  ~ In c (reg (unregister_full s x) id) -> room s p -> p < nconns s ->
+  In (status_frame (ver (conns s p)) 0) (mq (conns (unregister_full s x) p)).
+Proof.
+  intros I Hreg Hr1 Hnc Hroom Hp.
+  rewrite unregister_full_reg in Hr1, Hnc.
+  destruct (doev_unregister_reg s x id I) as [Hr|((sa & E) & Hid & Hr)]; rewrite Hr in Hnc.
+  { exfalso. apply Hnc. rewrite Hreg. now left. }
+  assert (Hx : x = c).
+  { destruct (N.eq_dec c x) as [?|Hne]; [now subst|]. exfalso. apply Hnc.
+    apply filter_ne_keeps; [assumption|]. rewrite Hreg. now left. }
+  subst x id.
+  destruct (promoted_is_told s c sa p rest0 I E Hreg) as (_ & Hmq).
+  unfold unregister_full, doev. change locked_register with true. rewrite E.
+  assert (Hpa : p < nconns sa).
+  { destruct (step_old s _ sa p E Logic.I Hp) as (_ & _ & Hn). lia. }
+  destruct (notify_all_oldrel (length (pending sa)) sa p Hpa) as (_ & _ & Hm & _). apply Hm.
+  rewrite (Hmq Hroom). apply in_or_app. right. now left.
+Qed.
+
+Lemma healthy_mid s0 s' id c p rest0 rest1 :
+  reach s0 -> Sett s0 -> mid s0 s' ->
+  reg s0 id = c :: p :: rest0 -> reg s' id = p :: rest1 -> ~ In c (reg s' id) ->
+  is_running (cstate (conns s' p)) = true -> 1 <= cap s0 ->
+  oldrel s0 s' p /\ In (status_frame (ver (conns s0 p)) 0) (mq (conns s' p)).
+Proof.
+  intros R S M Hreg Hr1 Hnc Hrun Hcap. pose proof (reach_Inv s0 R) as I.
+  assert (Hp : p < nconns s0) by (eapply registered_lt; [eassumption|rewrite Hreg; right; now left]).
+  assert (Hc0 : In c (reg s0 id)) by (rewrite Hreg; now left).
+  destruct M.
+  - exfalso. apply Hnc.
+    destruct (simple_reg_cases s0 e id H) as [Hr|(c0 & _ & _ & _ & Hr)]; rewrite Hr; [exact Hc0|now right].
+  - exfalso. apply Hnc. set (s1 := doev s0 (Spawn id0 v)).
+    assert (Hr0 : reg s1 id = reg s0 id) by reflexivity.
+    destruct (doev_insert_reg s1 (nconns s0) id) as [Hr|(_ & _ & Hr)]; rewrite Hr, Hr0; [exact Hc0|now right].
+  - pose proof (unregister_full_oldrel s0 c0 p Hp) as O. split; [exact O|].
+    apply (healthy_unreg s0 c0 id c p rest0 rest1 I Hreg Hr1 Hnc); [|exact Hp].
+    apply room_of_sett; auto. destruct O as (_ & Hb & _). auto.
+  - set (s1 := doev s0 (Insert c0)) in *.
+    assert (R1 : reach s1) by now apply doev_reach.
+    pose proof (doev_oldrel s0 (Insert c0) p Logic.I Hp) as O1. fold s1 in O1.
+    assert (Hp1 : p < nconns s1) by (destruct O1 as (_ & _ & _ & Hn); lia).
+    pose proof (unregister_full_oldrel s1 x p Hp1) as O2.
+    split; [eapply oldrel_trans; eassumption|].
+    unfold s1, doev in *. change locked_register with true in *.
+    destruct (step true s0 (Insert c0)) as [si|] eqn:Ei.
+    2:{ apply (healthy_unreg s0 x id c p rest0 rest1 I Hreg Hr1 Hnc); [|exact Hp].
+        apply room_of_sett; auto. destruct O2 as (_ & Hb & _). auto. }
+    exfalso.
+    pose proof (insert_enabled_fresh s0 c0 si Ei) as Hfresh.
+    assert (Hsi : forall i, reg si i = if i =? eid (conns s0 c0) then c0 :: reg s0 i else reg s0 i).
+    { intros i. pose proof Ei as Ei'. cbn [step] in Ei'. destruct (_ && _); [|discriminate].
+      injection Ei' as <-. cbn [reg].
+      destruct (insert_entry s0 c0 (eid (conns s0 c0))) as (_ & _ & _ & hr). rewrite hr.
+      destruct (i =? eid (conns s0 c0)) eqn:E; [|reflexivity]. apply N.eqb_eq in E. now subst. }
+    assert (Hex : eid (conns si x) = eid (conns s0 x)).
+    { pose proof (insert_eid s0 c0 x) as He. unfold doev in He. change locked_register with true in He.
+      now rewrite Ei in He. }
+    rewrite unregister_full_reg in Hr1, Hnc.
+    destruct (doev_unregister_reg si x id (reach_Inv _ R1)) as [Hr|(_ & Hid & Hr)]; rewrite Hr in Hnc, Hr1.
+    + apply Hnc. rewrite Hsi. destruct (id =? _); [now right|exact Hc0].
+    + rewrite Hex, <- H in Hid. rewrite Hsi, Hid, N.eqb_refl in Hnc, Hr1. rewrite <- Hid in Hnc, Hr1.
+      assert (Hx : x = c).
+      { destruct (N.eq_dec c x) as [?|Hne]; [now subst|]. exfalso. apply Hnc.
+        apply filter_ne_keeps; [assumption|]. right. exact Hc0. }
+      subst x. cbn [filter] in Hr1.
+      destruct (c0 =? c) eqn:Ecc.
+      * apply N.eqb_eq in Ecc. subst c0. destruct (registered_eid s0 id c I Hc0) as [_ Hins]. congruence.
+      * cbn [negb] in Hr1. injection Hr1 as -> _.
+        assert (Hpin : In p (reg s0 id)) by (rewrite Hreg; right; now left).
+        destruct (registered_eid s0 id p I Hpin) as [_ Hins]. congruence.
+Qed.
+
+Lemma existsb_false_notin c l : existsb (N.eqb c) l = false -> ~ In c l.
+Proof.
+  intros H Hin. assert (existsb (N.eqb c) l = true); [|congruence].
+  apply existsb_exists. exists c. split; [assumption|apply N.eqb_refl].
+Qed.
+
+Lemma took_over_told_model ss0 ss1 r :
+  SInv ss0 -> op_result ss0 ss1 -> Inv (st ss1) ->
+  took_over_told (st ss0) (st ss1) (observe ss0 ss1 r) = true.
+Proof.
+  intros [R S D] Hop I. unfold took_over_told. apply forallb_forall. intros id Hid.
+  destruct (reg (st ss0) id) as [|a rest0] eqn:Hreg; [reflexivity|].
+  destruct (obs_stack _ _ id) as [|c [|a' rest1]] eqn:Eo; try reflexivity.
+  destruct (_ && _) eqn:Ec; [|reflexivity].
+  apply andb_prop in Ec as [Ec E4]. apply andb_prop in Ec as [Ec E3]. apply andb_prop in Ec as [E1 E2].
+  apply N.eqb_eq in E1. subst a'. apply negb_true_iff, existsb_false_notin in E2. apply N.leb_le in E4.
+  apply obs_running_model in E3 as [Hlt Hrun].
+  apply obs_stack_model_cons in Eo; [|assumption].
+  destruct Hop as [Hsame|(s' & M & Hs')].
+  { exfalso. apply E2. rewrite Hsame, Hreg in Eo. rewrite Eo. now left. }
+  rewrite news_for_model. apply N.ltb_lt in Hlt. rewrite Hlt.
+  rewrite Hs' in *. destruct (settle_reg s') as (hr & _). rewrite hr in Eo.
+  pose proof (mid_reach _ _ R M) as R'.
+  destruct (settle_running _ a (reach_Inv _ R') Hrun) as (_ & Hr' & _).
+  assert (Hcin : In c (reg s' id)) by (rewrite Eo; now left).
+  rewrite <- Hreg in E2.
+  destruct (took_over_mid _ _ id a rest0 c R S M Hreg Hcin E2 Hr' E4) as (O & Hin).
+  apply existsb_frame. apply news_has; auto.
+  - now apply reach_Inv.
+  - eapply registered_lt; [apply reach_Inv, R|rewrite Hreg; now left].
+Qed.
+
+Lemma healthy_told_model ss0 ss1 r :
+  SInv ss0 -> op_result ss0 ss1 -> Inv (st ss1) ->
+  healthy_told (st ss0) (st ss1) (observe ss0 ss1 r) = true.
+Proof.
+  intros [R S D] Hop I. unfold healthy_told. apply forallb_forall. intros id Hid.
+  destruct (reg (st ss0) id) as [|c [|p rest0]] eqn:Hreg; try reflexivity.
+  destruct (obs_stack _ _ id) as [|p' rest1] eqn:Eo; [reflexivity|].
+  destruct (_ && _) eqn:Ec; [|reflexivity].
+  apply andb_prop in Ec as [Ec E4]. apply andb_prop in Ec as [Ec E3]. apply andb_prop in Ec as [E1 E2].
+  apply N.eqb_eq in E1. subst p'. apply negb_true_iff, existsb_false_notin in E2. apply N.leb_le in E4.
+  apply obs_running_model in E3 as [Hlt Hrun].
+  apply obs_stack_model_cons in Eo; [|assumption]. rewrite <- Eo in E2.
+  destruct Hop as [Hsame|(s' & M & Hs')].
+  { exfalso. apply E2. rewrite Hsame, Hreg. now left. }
+  rewrite news_for_model. apply N.ltb_lt in Hlt. rewrite Hlt.
+  rewrite Hs' in *. destruct (settle_reg s') as (hr & _). rewrite hr in Eo, E2.
+  pose proof (mid_reach _ _ R M) as R'.
+  destruct (settle_running _ p (reach_Inv _ R') Hrun) as (_ & Hr' & _).
+  destruct (healthy_mid _ _ id c p rest0 rest1 R S M Hreg Eo E2 Hr' E4) as (O & Hin).
+  apply existsb_frame. apply news_has; auto.
+  - now apply reach_Inv.
+  - eapply registered_lt; [apply reach_Inv, R|rewrite Hreg; right; now left].
+Qed.
+
+Lemma step_ok_model ss0 ss1 r :
+  SInv ss0 -> op_result ss0 ss1 -> Inv (st ss1) ->
+  step_ok (st ss0) (st ss1) (observe ss0 ss1 r) = true.
+Proof.
+  intros HS Hop I. unfold step_ok.
+  rewrite registry_ok_model, gone_only_after_last_model, gone_delivered_model,
+    took_over_told_model, healthy_told_model by assumption. reflexivity.
+Qed.
+
+Lemma monitor_steps_model l : forall ss, SInv ss ->
+  monitor_steps ss (exec_ops ss l) (map snd (exec_ops ss l)) = true.
 Proof.
   induction l as [|o l IH]; intros ss H; cbn [exec_ops].
   - destruct (win ss); [|reflexivity].
-    pose proof (exec_op_reach ss (OInsert n) H) as H1.
-    destruct (exec_op ss (OInsert n)) as [ss1 r]. cbn.
-    rewrite registry_ok_model by (now apply reach_Inv). reflexivity.
-  - pose proof (exec_op_reach ss o H) as H1.
-    destruct (exec_op ss o) as [ss1 r]. cbn [map snd monitor_steps fst].
-    rewrite registry_ok_model by (now apply reach_Inv). cbn [andb]. apply IH, H1.
+    destruct (exec_op_mid ss (OInsert n) H) as [Hop H1].
+    destruct (exec_op ss (OInsert n)) as [ss1 r]. cbn [fst] in *. cbn.
+    rewrite step_ok_model; [reflexivity|assumption..|]. apply reach_Inv, (si_reach _ H1).
+  - destruct (exec_op_mid ss o H) as [Hop H1].
+    destruct (exec_op ss o) as [ss1 r]. cbn [fst] in *. cbn [map snd monitor_steps fst].
+    rewrite step_ok_model; [|assumption..|apply reach_Inv, (si_reach _ H1)]. cbn [andb]. apply IH, H1.
+Qed.
+
+Lemma SInv_init cap : SInv (mkSS (init cap) None None).
+Proof.
+  constructor; cbn [st win deferred].
+  - apply reach_init.
+  - constructor; [intros c H; discriminate H|reflexivity].
+  - discriminate.
 Qed.
 
 Lemma model_monitor i : monitor i (model i) = true.
-Proof.
-  unfold monitor, model, trace. apply monitor_steps_model. cbn. apply reach_init.
-Qed.
-
+Proof. unfold monitor, model, trace. apply monitor_steps_model, SInv_init. Qed.
 (* the monitor, on arbitrary observations, says exactly: at every observed point the registry
    holds, per endpoint id, the registered-and-not-ended connections, newest first *)
 Definition obs_registry_spec (s : state) (ob : obs) : Prop :=
@@ -734,4 +2185,109 @@ Proof.
       * intros e He. apply N.ltb_lt. now apply h1.
       * intros id Hid. rewrite h2 by assumption. apply list_eqb_refl, N.eqb_refl.
   - split; [discriminate|reflexivity].
+Qed.
+
+(* the notice clauses of the monitor, on arbitrary observations, as statements *)
+Definition obs_gone_only_after_last (s1 : state) (ob : obs) : Prop :=
+  forall c l X, In (c, l) (o_news ob) -> In (FGone X) l -> obs_stack s1 ob X = [].
+
+Definition obs_gone_delivered (s0 s1 : state) (ob : obs) : Prop :=
+  forall X p a rest, In X ids -> reg s0 X <> [] -> obs_stack s1 ob X = [] -> In p (sent s0 X) ->
+    obs_stack s1 ob p = a :: rest -> obs_running ob a = true -> 1 <= cap s0 ->
+    count_frame (FGone X) (news_for ob a) = 1.
+
+Lemma is_nil_true {A} (l : list A) : is_nil l = true <-> l = [].
+Proof. destruct l; cbn; split; congruence. Qed.
+
+Lemma gone_only_after_last_spec s1 ob :
+  gone_only_after_last s1 ob = true <-> obs_gone_only_after_last s1 ob.
+Proof.
+  unfold gone_only_after_last, obs_gone_only_after_last. rewrite forallb_forall. split.
+  - intros H c l X Hin Hf. specialize (H (c, l) Hin). rewrite forallb_forall in H.
+    apply is_nil_true, H. cbn [snd]. now apply gone_ids_in.
+  - intros H [c l] Hin. apply forallb_forall. intros X HX. apply is_nil_true.
+    apply (H c l X Hin). now apply gone_ids_in.
+Qed.
+
+Lemma gone_delivered_spec s0 s1 ob :
+  gone_delivered s0 s1 ob = true <-> obs_gone_delivered s0 s1 ob.
+Proof.
+  unfold gone_delivered, obs_gone_delivered. rewrite forallb_forall. split.
+  - intros H X p a rest HX Hne Hnil Hp Ha Hrun Hcap. specialize (H X HX).
+    rewrite Hnil in H. cbn [is_nil] in H. rewrite andb_true_r in H.
+    destruct (reg s0 X) eqn:E; [contradiction|]. cbn [is_nil negb] in H.
+    rewrite forallb_forall in H. specialize (H p Hp). rewrite Ha, Hrun in H.
+    apply N.leb_le in Hcap. rewrite Hcap in H. cbn [andb] in H. now apply N.eqb_eq.
+  - intros H X HX. destruct (negb _ && _) eqn:Ec; [|reflexivity].
+    apply andb_prop in Ec as [E1 E2]. apply is_nil_true in E2.
+    apply forallb_forall. intros p Hp. destruct (obs_stack s1 ob p) as [|a rest] eqn:Ea; [reflexivity|].
+    destruct (obs_running ob a && _) eqn:Eg; [|reflexivity]. apply andb_prop in Eg as [G1 G2].
+    apply N.eqb_eq. apply (H X p a rest); auto.
+    + intros Hx. rewrite Hx in E1. discriminate.
+    + now apply N.leb_le.
+Qed.
+
+Definition obs_took_over_told (s0 s1 : state) (ob : obs) : Prop :=
+  forall id a rest0 c rest1, In id ids ->
+    reg s0 id = a :: rest0 -> obs_stack s1 ob id = c :: a :: rest1 -> ~ In c (reg s0 id) ->
+    obs_running ob a = true -> 1 <= cap s0 ->
+    In (status_frame (ver (conns s0 a)) 1) (news_for ob a).
+
+Definition obs_healthy_told (s0 s1 : state) (ob : obs) : Prop :=
+  forall id c p rest0 rest1, In id ids ->
+    reg s0 id = c :: p :: rest0 -> obs_stack s1 ob id = p :: rest1 -> ~ In c (obs_stack s1 ob id) ->
+    obs_running ob p = true -> 1 <= cap s0 ->
+    In (status_frame (ver (conns s0 p)) 0) (news_for ob p).
+
+Lemma frame_eqb_eq a b : frame_eqb a b = true -> a = b.
+Proof.
+  destruct a, b; cbn; try discriminate; intros H.
+  - apply N.eqb_eq in H. now subst.
+  - apply N.eqb_eq in H. now subst.
+  - apply N.eqb_eq in H. now subst.
+  - apply andb_prop in H as [h1 h2]. apply N.eqb_eq in h1, h2. now subst.
+Qed.
+
+Lemma existsb_frame_in f l : existsb (frame_eqb f) l = true <-> In f l.
+Proof.
+  split; [|apply existsb_frame]. intros H. apply existsb_exists in H as (x & Hx & E).
+  apply frame_eqb_eq in E. now subst.
+Qed.
+
+Lemma took_over_told_spec s0 s1 ob : took_over_told s0 s1 ob = true <-> obs_took_over_told s0 s1 ob.
+Proof.
+  unfold took_over_told, obs_took_over_told. rewrite forallb_forall. split.
+  - intros H id a rest0 c rest1 Hid Hreg Hst Hnc Hrun Hcap. specialize (H id Hid).
+    rewrite Hreg in Hnc. rewrite Hreg, Hst in H. rewrite N.eqb_refl, (existsb_notin _ _ Hnc), Hrun in H.
+    apply N.leb_le in Hcap. rewrite Hcap in H. cbn [negb andb] in H. now apply existsb_frame_in.
+  - intros H id Hid. destruct (reg s0 id) as [|a rest0] eqn:Hreg; [reflexivity|].
+    destruct (obs_stack s1 ob id) as [|c [|a' rest1]] eqn:Eo; try reflexivity.
+    destruct (_ && _) eqn:Ec; [|reflexivity].
+    apply andb_prop in Ec as [Ec E4]. apply andb_prop in Ec as [Ec E3]. apply andb_prop in Ec as [E1 E2].
+    apply N.eqb_eq in E1. subst a'. apply negb_true_iff, existsb_false_notin in E2. apply N.leb_le in E4.
+    apply existsb_frame_in. apply (H id a rest0 c rest1); auto. now rewrite Hreg.
+Qed.
+
+Lemma healthy_told_spec s0 s1 ob : healthy_told s0 s1 ob = true <-> obs_healthy_told s0 s1 ob.
+Proof.
+  unfold healthy_told, obs_healthy_told. rewrite forallb_forall. split.
+  - intros H id c p rest0 rest1 Hid Hreg Hst Hnc Hrun Hcap. specialize (H id Hid).
+    rewrite Hst in Hnc. rewrite Hreg, Hst in H. rewrite N.eqb_refl, (existsb_notin _ _ Hnc), Hrun in H.
+    apply N.leb_le in Hcap. rewrite Hcap in H. cbn [negb andb] in H. now apply existsb_frame_in.
+  - intros H id Hid. destruct (reg s0 id) as [|c [|p rest0]] eqn:Hreg; try reflexivity.
+    destruct (obs_stack s1 ob id) as [|p' rest1] eqn:Eo; [reflexivity|].
+    destruct (_ && _) eqn:Ec; [|reflexivity].
+    apply andb_prop in Ec as [Ec E4]. apply andb_prop in Ec as [Ec E3]. apply andb_prop in Ec as [E1 E2].
+    apply N.eqb_eq in E1. subst p'. apply negb_true_iff, existsb_false_notin in E2. apply N.leb_le in E4.
+    apply existsb_frame_in. apply (H id c p rest0 rest1); auto. now rewrite Eo.
+Qed.
+
+Definition obs_step_spec (s0 s1 : state) (ob : obs) : Prop :=
+  obs_registry_spec s1 ob /\ obs_gone_only_after_last s1 ob /\ obs_gone_delivered s0 s1 ob /\
+  obs_took_over_told s0 s1 ob /\ obs_healthy_told s0 s1 ob.
+
+Lemma step_ok_spec s0 s1 ob : step_ok s0 s1 ob = true <-> obs_step_spec s0 s1 ob.
+Proof.
+  unfold step_ok, obs_step_spec. rewrite !andb_true_iff, registry_ok_spec,
+    gone_only_after_last_spec, gone_delivered_spec, took_over_told_spec, healthy_told_spec. tauto.
 Qed.
